@@ -1,5 +1,5 @@
 (* Proofs/Sb2Proofs.v -- lemmas about Model/Sb2Model.v (C04). *)
-From Coq Require Import ZArith NArith List Bool Lia.
+From Coq Require Import ZArith NArith List Bool Lia ZifyNat ZifyN.
 Require Import Value Bytes BytesProofs GenSb2 Sha2 Aes Modes Hmac KeyWrap Crc Sb2Model.
 Import ListNotations.
 Local Open Scope N_scope.
@@ -137,11 +137,1712 @@ Proof.
   rewrite HL. change rom_cmdhdr_layout with cmdhdr_format.
   unfold hdr_export at 1. rewrite hdr_unpack by (try apply hdr_crc_lt; assumption).
   assert (E : firstn 15 (skipn 1 (hdr_export h ++ rest)) = skipn 1 (hdr_raw 0 h)).
-  { rewrite skipn_app. rewrite hdr_export_length. change (1 - 16)%nat with 0%nat. cbn [skipn].
+  { replace (skipn 1 (hdr_export h ++ rest)) with (skipn 1 (hdr_export h) ++ rest)
+      by (rewrite skipn_app, hdr_export_length; reflexivity).
     rewrite firstn_app_exact.
-    - unfold hdr_export. apply hdr_raw_tail.
+    - apply hdr_raw_tail.
     - rewrite skipn_length, hdr_export_length. reflexivity. }
   rewrite E. change 90 with cmdhdr_checksum_seed. fold (hdr_crc h).
   change (skipn 1 (hdr_raw 0 h)) with (skipn cmdhdr_checksum_first (hdr_raw 0 h)).
   fold (hdr_crc h). rewrite N.eqb_refl. destruct h; reflexivity.
+Qed.
+
+(* ------------------------------------------------------------------ finite sweeps *)
+Fixpoint upto (fuel : nat) (i : N) : list N :=
+  match fuel with O => [] | S f => i :: upto f (i + 1) end.
+
+Lemma upto_In fuel : forall i x, i <= x -> x < i + N.of_nat fuel -> In x (upto fuel i).
+Proof.
+  induction fuel as [|f IH]; intros i x H1 H2.
+  - simpl in H2. lia.
+  - simpl. destruct (N.eq_dec i x) as [->|Hne]; [now left|right].
+    apply IH; lia.
+Qed.
+
+Definition all_below (n : N) (P : N -> bool) : bool := forallb P (upto (N.to_nat n) 0).
+
+Lemma all_below_spec n P : all_below n P = true -> forall x, x < n -> P x = true.
+Proof.
+  unfold all_below. intros H x Hx. rewrite forallb_forall in H. apply H.
+  apply upto_In; [lia|]. rewrite N2Nat.id. lia.
+Qed.
+
+(* memory-id / flag packing facts, each checked over the whole domain *)
+Definition memid_facts (f m : N) : bool :=
+  let fl := or_memid f m in
+  (fl <? 65536) && (memid_of_flags fl =? m) && (or_memid fl m =? fl) && (fdev fl =? N.land m 255)
+  && (fgrp fl =? N.land (N.shiftr m 8) 15) && (flow fl =? f) && (or_memid 0 (memid_of_flags (or_memid 0 m)) =? or_memid 0 m).
+
+Lemma memid_facts_all : all_below 16 (fun f => all_below 4096 (fun m => memid_facts f m)) = true.
+Proof. vm_compute. reflexivity. Qed.
+
+Lemma memid_facts_ok f m : f < 16 -> m < 4096 -> memid_facts f m = true.
+Proof.
+  intros Hf Hm. pose proof (all_below_spec _ _ memid_facts_all f Hf) as H. cbv beta in H.
+  exact (all_below_spec _ _ H m Hm).
+Qed.
+
+Definition prog_facts (i8 f m : N) : bool :=
+  let fl := set_field (N.lor i8 f) ROM_MEM_DEVICE_ID_MASK ROM_MEM_DEVICE_ID_SHIFT m in
+  (fl <? 65536) && (N.shiftr (N.land fl ROM_MEM_DEVICE_ID_MASK) ROM_MEM_DEVICE_ID_SHIFT =? m)
+  && (set_field (N.lor i8 fl) ROM_MEM_DEVICE_ID_MASK ROM_MEM_DEVICE_ID_SHIFT m =? fl)
+  && (fdev fl =? m) && (N.land fl 255 =? N.lor f i8).
+
+Lemma prog_facts_all : all_below 2 (fun i => all_below 256 (fun f => all_below 256 (fun m => prog_facts i f m))) = true.
+Proof. vm_compute. reflexivity. Qed.
+
+Lemma prog_facts_ok i f m : i < 2 -> f < 256 -> m < 256 -> prog_facts i f m = true.
+Proof.
+  intros Hi Hf Hm. pose proof (all_below_spec _ _ prog_facts_all i Hi) as H. cbv beta in H.
+  pose proof (all_below_spec _ _ H f Hf) as H2. cbv beta in H2. exact (all_below_spec _ _ H2 m Hm).
+Qed.
+
+Definition ks_facts (c : N) : bool :=
+  let fl := set_field 0 KS_DEVICE_ID_MASK KS_DEVICE_ID_SHIFT c in
+  (fl <? 65536) && (N.shiftr (N.land fl KS_DEVICE_ID_MASK) KS_DEVICE_ID_SHIFT =? c) && (fdev fl =? c).
+
+Lemma ks_facts_all : all_below 256 ks_facts = true.
+Proof. vm_compute. reflexivity. Qed.
+
+(* ------------------------------------------------------------------ CRC-32/MPEG-2 stays in 32 bits *)
+Lemma lxor_lt_pow2 a b n : a < 2 ^ n -> b < 2 ^ n -> N.lxor a b < 2 ^ n.
+Proof.
+  intros Ha Hb. destruct (N.eq_dec (N.lxor a b) 0) as [E|E].
+  - rewrite E. apply N.neq_0_lt_0. apply N.pow_nonzero. discriminate.
+  - apply N.log2_lt_pow2; [lia|].
+    eapply N.le_lt_trans; [apply N.log2_lxor|].
+    destruct (N.eq_dec a 0) as [->|Ea]; destruct (N.eq_dec b 0) as [->|Eb].
+    + rewrite N.lxor_0_l in E. contradiction.
+    + rewrite N.max_r by apply N.le_0_l. apply N.log2_lt_pow2; lia.
+    + rewrite N.max_l by apply N.le_0_l. apply N.log2_lt_pow2; lia.
+    + apply N.max_lub_lt; apply N.log2_lt_pow2; lia.
+Qed.
+
+Lemma crc_bits_lt n r : crc_bits (S n) 32 (crc_poly CRC32_MPEG2) r < 2 ^ 32.
+Proof.
+  revert r. induction n as [|n IH]; intros r.
+  - cbn [crc_bits]. destruct (N.testbit r (32 - 1)).
+    + apply lxor_lt_pow2; [|reflexivity]. rewrite N.land_ones. apply N.mod_lt. discriminate.
+    + rewrite N.land_ones. apply N.mod_lt. discriminate.
+  - change (crc_bits (S (S n)) 32 (crc_poly CRC32_MPEG2) r) with
+      (crc_bits (S n) 32 (crc_poly CRC32_MPEG2)
+         (if N.testbit r (32 - 1) then N.lxor (N.land (N.shiftl r 1) (N.ones 32)) (crc_poly CRC32_MPEG2)
+          else N.land (N.shiftl r 1) (N.ones 32))).
+    apply IH.
+Qed.
+
+Lemma crc32_mpeg_lt l : crc32_mpeg l < U32.
+Proof.
+  unfold crc32_mpeg, crc, crc_finish. cbn [crc_refout crc_xorout crc_init crc_width CRC32_MPEG2].
+  rewrite N.lxor_0_r. unfold crc_update.
+  assert (G : forall l r, r < 2 ^ 32 -> fold_left (crc_byte CRC32_MPEG2) l r < 2 ^ 32).
+  { clear l. induction l as [|b t IH]; intros r Hr; [exact Hr|].
+    cbn [fold_left]. apply IH. unfold crc_byte. cbn [crc_refin crc_width crc_poly CRC32_MPEG2].
+    apply (crc_bits_lt 7). }
+  apply G. reflexivity.
+Qed.
+
+(* ------------------------------------------------------------------ commands *)
+Lemma hdr_fits_iff h :
+  hdr_fits h = true <-> h_tag h < 256 /\ h_flags h < 65536 /\ h_addr h < U32 /\ h_count h < U32 /\ h_data h < U32.
+Proof.
+  unfold hdr_fits, hdr_flds, cmdhdr_format. cbn [pack_fits fld_fits snd].
+  change (2 ^ (8 * N.of_nat 1)) with 256. change (2 ^ (8 * N.of_nat 2)) with 65536. change (2 ^ (8 * N.of_nat 4)) with U32.
+  rewrite !andb_true_iff, !N.ltb_lt. intuition; reflexivity.
+Qed.
+
+Lemma hdr_export_head h : exists tl, hdr_export h = hdr_crc h mod 256 :: h_tag h mod 256 :: tl.
+Proof. unfold hdr_export, hdr_raw, cmdhdr_format, hdr_flds. cbn [pack pack1 snd le_enc app]. eexists. reflexivity. Qed.
+
+Lemma cmd_parse_hdr h k rest :
+  hdr_fits h = true -> assoc (h_tag h) cmd_class_table = Some k ->
+  cmd_parse (hdr_export h ++ rest) = parse_class k h (hdr_export h ++ rest).
+Proof.
+  intros Hf Hk. pose proof (hdr_parse_export h rest Hf) as HP.
+  destruct (hdr_export_head h) as [tl E]. unfold cmd_parse. rewrite E in *. cbn [app].
+  apply hdr_fits_iff in Hf as (Ht & _). rewrite (N.mod_small _ _ Ht), Hk.
+  cbn [app] in HP. rewrite (N.mod_small _ _ Ht) in HP. rewrite HP. reflexivity.
+Qed.
+
+Lemma rom_cmd_hdr h rest :
+  hdr_fits h = true ->
+  rom_cmd (hdr_export h ++ rest) =
+  let d := hdr_export h ++ rest in
+      let f := h_flags h in
+      match h_tag h with
+      | 0 => Some (RNop, 16%nat)
+      | 1 => Some (RTag, 16%nat)
+      | 2 => if nlen d <? h_count h then None else
+             let n := N.to_nat (h_count h) in
+             let padded := ((n + 15) / 16 * 16)%nat in
+             let body := firstn padded (skipn 16 d) in
+             if negb (Nat.eqb (length body) padded) then None
+             else if negb (crc CRC32_MPEG2 body =? h_data h) then None
+             else Some (RLoad (fdev f) (fgrp f) (h_addr h) (firstn n body), (16 + padded)%nat)
+      | 3 => Some (RFill (h_addr h) (h_count h) (h_data h), 16%nat)
+      | 4 => Some (RJump (h_addr h) (h_data h) (if N.testbit f 1 then Some (h_count h) else None), 16%nat)
+      | 5 => Some (RCall (h_addr h) (h_data h), 16%nat)
+      | 7 => Some (RErase (fdev f) (fgrp f) (flow f) (h_addr h) (h_count h), 16%nat)
+      | 8 => Some (RReset, 16%nat)
+      | 9 => Some (RMemEnable (fdev f) (fgrp f) (h_addr h) (h_count h), 16%nat)
+      | 10 => Some (RProg (fdev f) (N.land f 255) (h_addr h) (h_count h) (h_data h), 16%nat)
+      | 11 => Some (RVerCheck (h_addr h) (h_count h), 16%nat)
+      | 12 => Some (RKsRestore (fdev f) (h_addr h), 16%nat)
+      | 13 => Some (RKsBackup (fdev f) (h_addr h), 16%nat)
+      | _ => None
+      end.
+Proof. intros Hf. unfold rom_cmd. rewrite rom_hdr_export by assumption. reflexivity. Qed.
+
+Lemma wf_bool_split a b : a && b = true -> a = true /\ b = true.
+Proof. apply andb_true_iff. Qed.
+
+Ltac split_wf H :=
+  repeat match type of H with
+         | _ && _ = true => let H2 := fresh "W" in apply wf_bool_split in H as [H H2]
+         end.
+
+Ltac ltb_hyps :=
+  repeat match goal with
+         | H : (_ <? _) = true |- _ => apply N.ltb_lt in H
+         | H : addr_ok _ = true |- _ => unfold addr_ok in H
+         | H : (_ =? _) = true |- _ => apply N.eqb_eq in H
+         end.
+
+Lemma fits_intro t f a c d :
+  t < 256 -> f < 65536 -> a < U32 -> c < U32 -> d < U32 -> hdr_fits (mkHdr t f a c d) = true.
+Proof. intros. apply hdr_fits_iff. cbn. auto. Qed.
+
+(* simple commands: header only, 16 bytes *)
+Definition simple_ok (c : cmd) (h : hdr) (o : pcmd) : Prop :=
+  cmd_build c = Ok (h, []) /\ hdr_fits h = true /\ cmd_obs c = Ok o /\
+  (forall rest, cmd_parse (hdr_export h ++ rest) = Ok o) /\ pcmd_size o = 16%nat /\
+  (forall rest, rom_cmd (hdr_export h ++ rest) = Some (sem c, 16%nat)).
+
+Lemma U32_val : U32 = 4294967296. Proof. reflexivity. Qed.
+
+Ltac finish_simple W Hf k :=
+  unfold simple_ok; split; [|split; [|split; [|split; [|split]]]];
+  [ cbn [cmd_build]; rewrite ?W; reflexivity
+  | exact Hf
+  | unfold cmd_obs; cbn [cmd_build]; rewrite ?W; reflexivity
+  | intros rest; rewrite (cmd_parse_hdr _ k) by (assumption || reflexivity); reflexivity
+  | reflexivity
+  | intros rest; rewrite rom_cmd_hdr by assumption; reflexivity ].
+
+Lemma nop_ok : simple_ok CNop (mkHdr TAG_NOP 0 0 0 0) (mkHdr TAG_NOP 0 0 0 0, [], 0).
+Proof. assert (Hf : hdr_fits (mkHdr TAG_NOP 0 0 0 0) = true) by reflexivity. finish_simple Hf Hf 0. Qed.
+Lemma tag_ok : simple_ok CTag (mkHdr TAG_TAG 0 0 0 0) (mkHdr TAG_TAG 0 0 0 0, [], 0).
+Proof. assert (Hf : hdr_fits (mkHdr TAG_TAG 0 0 0 0) = true) by reflexivity. finish_simple Hf Hf 1. Qed.
+Lemma reset_ok : simple_ok CReset (mkHdr TAG_RESET 0 0 0 0) (mkHdr TAG_RESET 0 0 0 0, [], 0).
+Proof. assert (Hf : hdr_fits (mkHdr TAG_RESET 0 0 0 0) = true) by reflexivity. finish_simple Hf Hf 8. Qed.
+
+Lemma jump_none_ok a g : wf_cmd (CJump a g None) = true -> simple_ok (CJump a g None) (mkHdr TAG_JUMP 0 a 0 g) (mkHdr TAG_JUMP 0 a 0 g, [], 0).
+Proof.
+  intros W. cbn [wf_cmd] in W. split_wf W.
+  assert (Hf : hdr_fits (mkHdr TAG_JUMP 0 a 0 g) = true) by (ltb_hyps; apply fits_intro; try assumption; reflexivity).
+  finish_simple W Hf 4.
+Qed.
+Lemma jump_some_ok a g s : wf_cmd (CJump a g (Some s)) = true -> simple_ok (CJump a g (Some s)) (mkHdr TAG_JUMP 2 a s g) (mkHdr TAG_JUMP 2 a s g, [], 0).
+Proof.
+  intros W. cbn [wf_cmd] in W. split_wf W.
+  assert (Hf : hdr_fits (mkHdr TAG_JUMP 2 a s g) = true) by (ltb_hyps; apply fits_intro; try assumption; reflexivity).
+  finish_simple W Hf 4.
+Qed.
+
+Lemma call_ok a g : wf_cmd (CCall a g) = true -> simple_ok (CCall a g) (mkHdr TAG_CALL 0 a 0 g) (mkHdr TAG_CALL 0 a 0 g, [], 0).
+Proof.
+  intros W. cbn [wf_cmd] in W. split_wf W.
+  assert (Hf : hdr_fits (mkHdr TAG_CALL 0 a 0 g) = true) by (ltb_hyps; apply fits_intro; try assumption; reflexivity).
+  finish_simple W Hf 5.
+Qed.
+
+Lemma erase_ok a l f m : wf_cmd (CErase a l f m) = true ->
+  simple_ok (CErase a l f m) (mkHdr TAG_ERASE (or_memid f m) a l 0) (mkHdr TAG_ERASE (or_memid f m) a l 0, [], m).
+Proof.
+  intros W. cbn [wf_cmd] in W.
+  apply andb_true_iff in W as [W Wm]; apply andb_true_iff in W as [W Wf]; apply andb_true_iff in W as [Wa Wl].
+  pose proof Wf as Hf0. pose proof Wm as Hm0. apply N.ltb_lt in Hf0, Hm0.
+  pose proof (memid_facts_ok f m Hf0 Hm0) as F. unfold memid_facts in F. cbv zeta in F.
+  repeat (let X := fresh "F" in apply andb_true_iff in F as [F X]).
+  assert (Hf : hdr_fits (mkHdr TAG_ERASE (or_memid f m) a l 0) = true) by (ltb_hyps; apply fits_intro; try assumption; reflexivity).
+  ltb_hyps.
+  unfold simple_ok; split; [|split; [|split; [|split; [|split]]]].
+  - cbn [cmd_build]. unfold addr_ok. apply N.ltb_lt in Wa. rewrite Wa; reflexivity.
+  - exact Hf.
+  - unfold cmd_obs; cbn [cmd_build]. unfold addr_ok. apply N.ltb_lt in Wa. rewrite Wa; reflexivity.
+  - intros rest; rewrite (cmd_parse_hdr _ 7) by (assumption || reflexivity).
+    unfold parse_class. cbn [h_flags h_addr h_count h_data]. cbv zeta. rewrite F5, F4. reflexivity.
+  - reflexivity.
+  - intros rest; rewrite rom_cmd_hdr by assumption. cbn [h_tag h_flags h_addr h_count h_data TAG_ERASE].
+    cbv zeta. cbn [sem]. rewrite F3, F2, F1. reflexivity.
+Qed.
+
+Lemma memenable_ok a s m : wf_cmd (CMemEnable a s m) = true ->
+  simple_ok (CMemEnable a s m) (mkHdr TAG_MEM_ENABLE (or_memid 0 m) a s 0) (mkHdr TAG_MEM_ENABLE (or_memid 0 m) a s 0, [], m).
+Proof.
+  intros W. cbn [wf_cmd] in W.
+  apply andb_true_iff in W as [W Wm]; apply andb_true_iff in W as [Wa Ws].
+  pose proof Wm as Hm0. apply N.ltb_lt in Hm0.
+  assert (H0 : 0 < 16) by reflexivity.
+  pose proof (memid_facts_ok 0 m H0 Hm0) as F. unfold memid_facts in F. cbv zeta in F.
+  repeat (let X := fresh "F" in apply andb_true_iff in F as [F X]).
+  assert (Hf : hdr_fits (mkHdr TAG_MEM_ENABLE (or_memid 0 m) a s 0) = true) by (ltb_hyps; apply fits_intro; try assumption; reflexivity).
+  ltb_hyps.
+  unfold simple_ok; split; [|split; [|split; [|split; [|split]]]].
+  - reflexivity.
+  - exact Hf.
+  - reflexivity.
+  - intros rest; rewrite (cmd_parse_hdr _ 9) by (assumption || reflexivity).
+    unfold parse_class. cbn [h_flags h_addr h_count h_data]. cbv zeta. rewrite F5. reflexivity.
+  - reflexivity.
+  - intros rest; rewrite rom_cmd_hdr by assumption. cbn [h_tag h_flags h_addr h_count h_data TAG_MEM_ENABLE].
+    cbv zeta. cbn [sem]. rewrite F3, F2. reflexivity.
+Qed.
+
+Definition is8 (w2 : N) : N := if w2 =? 0 then 0 else 1.
+Lemma is8_lt w : is8 w < 2. Proof. unfold is8. destruct (w =? 0); reflexivity. Qed.
+
+Lemma prog_ok a m w1 w2 f : wf_cmd (CProg a m w1 w2 f) = true ->
+  let fl := set_field (N.lor (is8 w2) f) ROM_MEM_DEVICE_ID_MASK ROM_MEM_DEVICE_ID_SHIFT m in
+  simple_ok (CProg a m w1 w2 f) (mkHdr TAG_PROG fl a w1 w2) (mkHdr TAG_PROG fl a w1 w2, [], m).
+Proof.
+  intros W fl. cbn [wf_cmd] in W.
+  apply andb_true_iff in W as [W Wf]; apply andb_true_iff in W as [W W2]; apply andb_true_iff in W as [W W1];
+  apply andb_true_iff in W as [Wa Wm].
+  pose proof Wm as Hm0. pose proof Wf as Hf0. apply N.ltb_lt in Hm0, Hf0.
+  pose proof (prog_facts_ok (is8 w2) f m (is8_lt w2) Hf0 Hm0) as F. unfold prog_facts in F. cbv zeta in F. fold fl in F.
+  repeat (let X := fresh "F" in apply andb_true_iff in F as [F X]).
+  assert (Hf : hdr_fits (mkHdr TAG_PROG fl a w1 w2) = true) by (ltb_hyps; apply fits_intro; try assumption; reflexivity).
+  unfold simple_ok; split; [|split; [|split; [|split; [|split]]]].
+  - cbn [cmd_build]. rewrite Wm, Wa, W1, W2. reflexivity.
+  - exact Hf.
+  - unfold cmd_obs; cbn [cmd_build]. rewrite Wm, Wa, W1, W2. reflexivity.
+  - intros rest; rewrite (cmd_parse_hdr _ 10) by (assumption || reflexivity).
+    unfold parse_class. cbn [h_flags h_addr h_count h_data]. cbv zeta. ltb_hyps. fold (is8 w2). rewrite F3, F2. reflexivity.
+  - reflexivity.
+  - intros rest; rewrite rom_cmd_hdr by assumption. cbn [h_tag h_flags h_addr h_count h_data TAG_PROG].
+    cbv zeta. cbn [sem]. ltb_hyps. fold (is8 w2). rewrite F1, F0. reflexivity.
+Qed.
+
+Lemma mem_In x l : mem x l = true -> In x l.
+Proof. unfold mem. rewrite existsb_exists. intros (y & Hy & E). apply N.eqb_eq in E. now subst. Qed.
+
+Lemma vercheck_ok t v : wf_cmd (CVerCheck t v) = true ->
+  simple_ok (CVerCheck t v) (mkHdr TAG_FW_VERSION_CHECK 0 t v 0) (mkHdr TAG_FW_VERSION_CHECK 0 t v 0, [], 0).
+Proof.
+  intros W. cbn [wf_cmd] in W. apply andb_true_iff in W as [Wt Wv].
+  assert (Ht : t < U32).
+  { apply mem_In in Wt. cbn in Wt. destruct Wt as [<-|[<-|[]]]; reflexivity. }
+  assert (Hf : hdr_fits (mkHdr TAG_FW_VERSION_CHECK 0 t v 0) = true) by (ltb_hyps; apply fits_intro; try assumption; reflexivity).
+  unfold simple_ok; split; [|split; [|split; [|split; [|split]]]].
+  - reflexivity.
+  - exact Hf.
+  - reflexivity.
+  - intros rest; rewrite (cmd_parse_hdr _ 11) by (assumption || reflexivity).
+    unfold parse_class. cbn [h_flags h_addr h_count h_data]. rewrite Wt. reflexivity.
+  - reflexivity.
+  - intros rest; rewrite rom_cmd_hdr by assumption. reflexivity.
+Qed.
+
+Lemma ks_ok (restore : bool) a c :
+  wf_cmd (if restore then CKsRestore a c else CKsBackup a c) = true ->
+  let tg := if restore then TAG_WR_KEYSTORE_TO_NV else TAG_WR_KEYSTORE_FROM_NV in
+  let fl := set_field 0 KS_DEVICE_ID_MASK KS_DEVICE_ID_SHIFT c in
+  simple_ok (if restore then CKsRestore a c else CKsBackup a c) (mkHdr tg fl a KS_COUNT 0) (mkHdr tg fl a KS_COUNT 0, [], 0).
+Proof.
+  intros W tg fl.
+  assert (W' : addr_ok a && (c <? 256) && mem c ext_mem_ids = true) by (destruct restore; exact W).
+  clear W. apply andb_true_iff in W' as [W Wmem]; apply andb_true_iff in W as [Wa Wc].
+  pose proof Wc as Hc. apply N.ltb_lt in Hc.
+  pose proof (all_below_spec _ _ ks_facts_all c Hc) as F. unfold ks_facts in F. cbv zeta in F. fold fl in F.
+  repeat (let X := fresh "F" in apply andb_true_iff in F as [F X]).
+  assert (Hf : hdr_fits (mkHdr tg fl a KS_COUNT 0) = true).
+  { ltb_hyps. apply fits_intro; try assumption; try reflexivity. destruct restore; reflexivity. }
+  ltb_hyps.
+  unfold simple_ok; split; [|split; [|split; [|split; [|split]]]].
+  - destruct restore; cbn [cmd_build]; unfold addr_ok; apply N.ltb_lt in Wa, Wc; rewrite Wa, Wc; reflexivity.
+  - exact Hf.
+  - destruct restore; unfold cmd_obs; cbn [cmd_build]; unfold addr_ok; apply N.ltb_lt in Wa, Wc; rewrite Wa, Wc; reflexivity.
+  - intros rest. destruct restore.
+    + rewrite (cmd_parse_hdr _ 12) by (assumption || reflexivity).
+      unfold parse_class. cbn [h_flags h_addr h_count h_data]. cbv zeta. fold fl. rewrite F1, Wmem. reflexivity.
+    + rewrite (cmd_parse_hdr _ 13) by (assumption || reflexivity).
+      unfold parse_class. cbn [h_flags h_addr h_count h_data]. cbv zeta. fold fl. rewrite F1, Wmem. reflexivity.
+  - destruct restore; reflexivity.
+  - intros rest; rewrite rom_cmd_hdr by assumption. destruct restore; cbn [h_tag h_flags h_addr h_count h_data tg];
+    cbv zeta; cbn [sem]; fold fl; rewrite F0; reflexivity.
+Qed.
+
+Definition fill_w (p : N) : N := if p <? 256 then p * 16843009 else if p <? 65536 then p * 65537 else p.
+Definition fill_l (l : N) : N := if l =? 0 then 4 else l.
+
+Lemma fill_word_ok p : p < U32 -> fill_word p = Ok (fill_w p).
+Proof.
+  intros H. unfold fill_word, fill_w. destruct (p <? 256); [reflexivity|]. destruct (p <? 65536); [reflexivity|].
+  apply N.ltb_lt in H. rewrite H. reflexivity.
+Qed.
+
+Lemma fill_w_lt p : p < U32 -> fill_w p < U32.
+Proof.
+  intros H. unfold fill_w. rewrite U32_val in *.
+  destruct (p <? 256) eqn:E1; [apply N.ltb_lt in E1; lia|].
+  destruct (p <? 65536) eqn:E2; [apply N.ltb_lt in E2; lia|]. exact H.
+Qed.
+
+Lemma fill_w_idem p : p < U32 -> fill_w (fill_w p) = fill_w p.
+Proof.
+  intros H. unfold fill_w at 2 3. 
+  destruct (p <? 256) eqn:E1.
+  - apply N.ltb_lt in E1. destruct (N.eq_dec p 0) as [->|Hp]; [reflexivity|].
+    unfold fill_w. replace (p * 16843009 <? 256) with false by (symmetry; apply N.ltb_ge; lia).
+    replace (p * 16843009 <? 65536) with false by (symmetry; apply N.ltb_ge; lia). reflexivity.
+  - apply N.ltb_ge in E1. destruct (p <? 65536) eqn:E2.
+    + unfold fill_w. replace (p * 65537 <? 256) with false by (symmetry; apply N.ltb_ge; lia).
+      replace (p * 65537 <? 65536) with false by (symmetry; apply N.ltb_ge; lia). reflexivity.
+    + unfold fill_w. rewrite E2. replace (p <? 256) with false by (symmetry; apply N.ltb_ge; lia). reflexivity.
+Qed.
+
+Lemma fill_ok a p l : wf_cmd (CFill a p l) = true ->
+  simple_ok (CFill a p l) (mkHdr TAG_FILL 0 a (fill_l l) (fill_w p)) (mkHdr TAG_FILL 0 a (fill_l l) (fill_w p), be_enc 4 (fill_w p), 0).
+Proof.
+  intros W. cbn [wf_cmd] in W.
+  apply andb_true_iff in W as [W Wl4]; apply andb_true_iff in W as [W Wl]; apply andb_true_iff in W as [Wa Wp].
+  pose proof Wp as Hp. apply N.ltb_lt in Hp.
+  assert (Hl4 : fill_l l mod 4 =? 0 = true).
+  { unfold fill_l. destruct (l =? 0) eqn:E; [reflexivity| exact Wl4]. }
+  assert (Hl0 : fill_l l =? 0 = false).
+  { unfold fill_l. destruct (l =? 0) eqn:E; [reflexivity| exact E]. }
+  assert (Hll : fill_l l < U32).
+  { unfold fill_l. destruct (l =? 0); [reflexivity| now apply N.ltb_lt]. }
+  assert (Hf : hdr_fits (mkHdr TAG_FILL 0 a (fill_l l) (fill_w p)) = true).
+  { ltb_hyps. apply fits_intro; try assumption; try reflexivity. now apply fill_w_lt. }
+  unfold simple_ok; split; [|split; [|split; [|split; [|split]]]].
+  - cbn [cmd_build]. fold (fill_l l). rewrite Hl4, (fill_word_ok p Hp), Wa. reflexivity.
+  - exact Hf.
+  - unfold cmd_obs; cbn [cmd_build]. fold (fill_l l). rewrite Hl4, (fill_word_ok p Hp), Wa. reflexivity.
+  - intros rest; rewrite (cmd_parse_hdr _ 3) by (assumption || reflexivity).
+    unfold parse_class. cbn [h_flags h_addr h_count h_data]. rewrite Hl0, Hl4.
+    rewrite (fill_word_ok _ (fill_w_lt p Hp)), fill_w_idem by assumption. reflexivity.
+  - reflexivity.
+  - intros rest; rewrite rom_cmd_hdr by assumption. reflexivity.
+Qed.
+
+Ltac Zify.zify_post_hook ::= Z.to_euclidean_division_equations.
+
+Lemma align16_ge n : (n <= align16 n)%nat.
+Proof. unfold align16. lia. Qed.
+Lemma align16_mod n : (align16 n mod 16 = 0)%nat.
+Proof. unfold align16. apply Nat.mod_mul. discriminate. Qed.
+Lemma align16_mult n : (n mod 16 = 0)%nat -> align16 n = n.
+Proof. unfold align16. lia. Qed.
+
+Lemma load_data_length d pad : length (load_data d pad) = align16 (length d).
+Proof. unfold load_data. rewrite app_length, fit_length. pose proof (align16_ge (length d)). lia. Qed.
+
+Lemma load_ok a m d pad : wf_cmd (CLoad a m d pad) = true ->
+  let dd := load_data d pad in
+  let h := mkHdr TAG_LOAD (or_memid 0 m) a (nlen dd) (crc32_mpeg dd) in
+  cmd_build (CLoad a m d pad) = Ok (h, dd) /\ hdr_fits h = true /\ cmd_obs (CLoad a m d pad) = Ok (h, dd, m) /\
+  (length dd mod 16 = 0)%nat /\ pcmd_size (h, dd, m) = (16 + length dd)%nat /\
+  forall rest, cmd_parse (hdr_export h ++ dd ++ rest) = Ok (h, dd, m) /\
+               rom_cmd (hdr_export h ++ dd ++ rest) = Some (sem (CLoad a m d pad), (16 + length dd)%nat).
+Proof.
+  intros W dd h. cbn [wf_cmd] in W.
+  apply andb_true_iff in W as [W Wlen]; apply andb_true_iff in W as [W Wpad]; apply andb_true_iff in W as [W Wd];
+  apply andb_true_iff in W as [Wa Wm].
+  pose proof Wm as Hm0. apply N.ltb_lt in Hm0.
+  assert (H0 : 0 < 16) by reflexivity.
+  pose proof (memid_facts_ok 0 m H0 Hm0) as F. unfold memid_facts in F. cbv zeta in F.
+  repeat (let X := fresh "F" in apply andb_true_iff in F as [F X]).
+  assert (HL : length dd = align16 (length d)) by apply load_data_length.
+  assert (HLm : (length dd mod 16 = 0)%nat) by (rewrite HL; apply align16_mod).
+  assert (Hf : hdr_fits h = true).
+  { ltb_hyps. apply fits_intro; try assumption; try reflexivity.
+    - unfold nlen. rewrite HL. assumption.
+    - apply crc32_mpeg_lt. }
+  ltb_hyps.
+  split; [|split; [|split; [|split; [|split]]]].
+  - cbn [cmd_build]. unfold addr_ok. apply N.ltb_lt in Wa. rewrite Wa. reflexivity.
+  - exact Hf.
+  - unfold cmd_obs. cbn [cmd_build]. unfold addr_ok. apply N.ltb_lt in Wa. rewrite Wa. reflexivity.
+  - exact HLm.
+  - unfold pcmd_size. cbn [h_tag h]. rewrite N.eqb_refl. change HDR_SIZE with 16%nat. now rewrite align16_mult.
+  - intros rest.
+    assert (Hsk : skipn 16 (hdr_export h ++ dd ++ rest) = dd ++ rest) by (apply skipn_app_exact, hdr_export_length).
+    assert (Hlen : length (hdr_export h ++ dd ++ rest) = (16 + length dd + length rest)%nat)
+      by (rewrite !app_length, hdr_export_length; lia).
+    split.
+    + rewrite (cmd_parse_hdr _ 2) by (assumption || reflexivity).
+      unfold parse_class. cbn [h_flags h_addr h_count h_data h]. cbv zeta. change HDR_SIZE with 16%nat.
+      rewrite Hsk.
+      assert (En : N.to_nat (N.min ((nlen dd + 15) / 16 * 16) (nlen (hdr_export h ++ dd ++ rest))) = length dd).
+      { unfold nlen. rewrite Hlen. lia. }
+      rewrite En. rewrite (firstn_app_exact dd rest _ eq_refl). rewrite N.eqb_refl. cbn [negb].
+      unfold aligned16. rewrite HLm. cbn [Nat.eqb negb]. rewrite F5. reflexivity.
+    + rewrite rom_cmd_hdr by assumption. cbn [h_tag h_flags h_addr h_count h_data h TAG_LOAD]. cbv zeta.
+      rewrite Hsk.
+      replace (nlen (hdr_export h ++ dd ++ rest) <? nlen dd) with false
+        by (symmetry; apply N.ltb_ge; unfold nlen; rewrite Hlen; lia).
+      unfold nlen. rewrite Nat2N.id.
+      replace ((length dd + 15) / 16 * 16)%nat with (length dd) by lia.
+      rewrite (firstn_app_exact dd rest _ eq_refl). rewrite Nat.eqb_refl. cbn [negb].
+      fold (crc32_mpeg dd). rewrite N.eqb_refl. cbn [negb]. rewrite firstn_all. cbn [sem].
+      fold dd. rewrite F3, F2. reflexivity.
+Qed.
+
+Definition cmd_good (c : cmd) (b : list N) (o : pcmd) : Prop :=
+  cmd_export c = Ok b /\ cmd_obs c = Ok o /\ (16 <= length b)%nat /\ (length b mod 16 = 0)%nat /\
+  pcmd_size o = length b /\
+  forall rest, cmd_parse (b ++ rest) = Ok o /\ rom_cmd (b ++ rest) = Some (sem c, length b).
+
+Lemma simple_good c h o : simple_ok c h o -> cmd_good c (hdr_export h) o.
+Proof.
+  intros (Hb & Hf & Ho & Hp & Hs & Hr). unfold cmd_good.
+  split; [|split; [|split; [|split; [|split]]]].
+  - unfold cmd_export. rewrite Hb, Hf, app_nil_r. reflexivity.
+  - exact Ho.
+  - rewrite hdr_export_length. apply Nat.le_refl.
+  - rewrite hdr_export_length. reflexivity.
+  - rewrite hdr_export_length. exact Hs.
+  - intros rest. rewrite hdr_export_length. split; [apply Hp | apply Hr].
+Qed.
+
+Lemma cmd_ok c : wf_cmd c = true -> exists b o, cmd_good c b o.
+Proof.
+  intros W. destruct c as [ | | |a m d pad|a p l|a g sp|a g|a l f m|a s m|a m w1 w2 f|t v|a c|a c].
+  - eexists _, _. apply simple_good, nop_ok.
+  - eexists _, _. apply simple_good, tag_ok.
+  - eexists _, _. apply simple_good, reset_ok.
+  - destruct (load_ok a m d pad W) as (Hb & Hf & Ho & Hm & Hs & Hr).
+    eexists _, _. unfold cmd_good. split; [|split; [|split; [|split; [|split]]]].
+    + unfold cmd_export. rewrite Hb, Hf. reflexivity.
+    + exact Ho.
+    + rewrite app_length, hdr_export_length. lia.
+    + rewrite app_length, hdr_export_length. lia.
+    + rewrite app_length, hdr_export_length. exact Hs.
+    + intros rest. rewrite <- app_assoc, app_length, hdr_export_length. apply Hr.
+  - eexists _, _. apply simple_good, fill_ok, W.
+  - destruct sp as [s|]; eexists _, _; apply simple_good; [apply jump_some_ok | apply jump_none_ok]; exact W.
+  - eexists _, _. apply simple_good, call_ok, W.
+  - eexists _, _. apply simple_good, erase_ok, W.
+  - eexists _, _. apply simple_good, memenable_ok, W.
+  - eexists _, _. apply simple_good. apply (prog_ok a m w1 w2 f W).
+  - eexists _, _. apply simple_good, vercheck_ok, W.
+  - eexists _, _. apply simple_good. apply (ks_ok true a c W).
+  - eexists _, _. apply simple_good. apply (ks_ok false a c W).
+Qed.
+
+(* ------------------------------------------------------------------ command streams *)
+Lemma cmds_parse_step f d p :
+  d <> [] -> cmd_parse d = Ok p ->
+  cmds_parse (S f) d = match cmds_parse f (skipn (pcmd_size p) d) with Err e => Err e | Ok r => Ok (p :: r) end.
+Proof. intros Hd Hp. destruct d; [contradiction|]. cbn [cmds_parse]. rewrite Hp. reflexivity. Qed.
+
+Lemma rom_cmds_step f d c n :
+  d <> [] -> rom_cmd d = Some (c, n) ->
+  rom_cmds (S f) d = match rom_cmds f (skipn n d) with None => None | Some r => Some (c :: r) end.
+Proof. intros Hd Hp. destruct d; [contradiction|]. cbn [rom_cmds]. rewrite Hp. reflexivity. Qed.
+
+Lemma nonempty_len {A} (l : list A) : (0 < length l)%nat -> l <> [].
+Proof. destruct l; simpl; [lia|discriminate]. Qed.
+
+Lemma cmds_stream cs : forallb wf_cmd cs = true ->
+  exists bs os, cmds_export cs = Ok bs /\ (length bs mod 16 = 0)%nat /\ (16 * length cs <= length bs)%nat /\
+    Forall2 (fun c o => cmd_obs c = Ok o) cs os /\
+    forall fuel, (length cs < fuel)%nat -> cmds_parse fuel bs = Ok os /\ rom_cmds fuel bs = Some (map sem cs).
+Proof.
+  induction cs as [|c t IH]; intros W.
+  - exists [], []. repeat split; try constructor.
+    + destruct fuel; [lia|reflexivity].
+    + destruct fuel; [simpl in *; lia|reflexivity].
+  - cbn [forallb] in W. apply andb_true_iff in W as [Wc Wt].
+    destruct (cmd_ok c Wc) as (b & o & He & Ho & Hl16 & Hm & Hs & Hr).
+    destruct (IH Wt) as (bs & os & Hes & Hms & Hls & Hos & Hrs).
+    exists (b ++ bs), (o :: os). split; [|split; [|split; [|split]]].
+    + cbn [cmds_export]. rewrite He, Hes. reflexivity.
+    + rewrite app_length. rewrite Nat.add_mod by discriminate. rewrite Hm, Hms. reflexivity.
+    + rewrite app_length. cbn [length]. lia.
+    + constructor; assumption.
+    + intros fuel Hfuel. destruct fuel as [|f]; [lia|]. cbn [length] in Hfuel.
+      assert (Hne : b ++ bs <> []) by (apply nonempty_len; rewrite app_length; lia).
+      destruct (Hr bs) as [Hp1 Hr1]. destruct (Hrs f ltac:(lia)) as [Hp2 Hr2]. split.
+      * rewrite (cmds_parse_step f _ o Hne Hp1). rewrite Hs, (skipn_app_exact b bs _ eq_refl), Hp2. reflexivity.
+      * rewrite (rom_cmds_step f _ _ _ Hne Hr1). rewrite (skipn_app_exact b bs _ eq_refl), Hr2. reflexivity.
+Qed.
+
+(* ------------------------------------------------------------------ chunks *)
+Definition blocks16 (bs : list (list N)) : Prop := Forall (fun b => length b = 16%nat) bs.
+
+Lemma chunks_fuel_concat {A} k : (0 < k)%nat -> forall fuel (l : list A),
+  (length l <= fuel)%nat -> concat (chunks_fuel fuel k l) = l.
+Proof.
+  intros Hk. induction fuel as [|f IH]; intros l Hl.
+  - destruct l; [reflexivity| simpl in Hl; lia].
+  - destruct l as [|x t]; [reflexivity|]. cbn [chunks_fuel concat].
+    rewrite IH.
+    + apply firstn_skipn.
+    + rewrite skipn_length. cbn [length] in *. lia.
+Qed.
+
+Lemma chunks_concat {A} k (l : list A) : (0 < k)%nat -> concat (chunks k l) = l.
+Proof. intros Hk. unfold chunks. apply chunks_fuel_concat; [assumption| lia]. Qed.
+
+Lemma chunks_fuel_blocks : forall bs fuel,
+  blocks16 bs -> (length bs <= fuel)%nat -> chunks_fuel fuel 16 (concat bs) = bs.
+Proof.
+  induction bs as [|b t IH]; intros fuel Hb Hf.
+  - destruct fuel; reflexivity.
+  - inversion Hb as [|? ? Hb1 Hbt]; subst. destruct fuel as [|f]; [simpl in Hf; lia|].
+    cbn [concat]. destruct b as [|x b']; [discriminate|].
+    change (chunks_fuel (S f) 16 ((x :: b') ++ concat t))
+      with (firstn 16 ((x :: b') ++ concat t) :: chunks_fuel f 16 (skipn 16 ((x :: b') ++ concat t))).
+    rewrite (firstn_app_exact (x :: b') _ 16 Hb1), (skipn_app_exact (x :: b') _ 16 Hb1).
+    rewrite IH; [reflexivity|assumption| simpl in Hf; lia].
+Qed.
+
+Lemma concat_blocks_length bs : blocks16 bs -> length (concat bs) = (16 * length bs)%nat.
+Proof.
+  induction bs as [|b t IH]; intros H; [reflexivity|]. inversion H; subst.
+  cbn [concat length]. rewrite app_length, IH by assumption. lia.
+Qed.
+
+Lemma chunks_blocks bs : blocks16 bs -> chunks 16 (concat bs) = bs.
+Proof.
+  intros H. unfold chunks. apply chunks_fuel_blocks; [assumption|].
+  rewrite concat_blocks_length by assumption. lia.
+Qed.
+
+Lemma chunks_fuel_blocks16 : forall fuel (l : list N),
+  (length l mod 16 = 0)%nat -> blocks16 (chunks_fuel fuel 16 l).
+Proof.
+  induction fuel as [|f IH]; intros l Hl; [constructor|].
+  destruct l as [|x t]; [constructor|]. cbn [chunks_fuel]. constructor.
+  - rewrite firstn_length. simpl length in *. lia.
+  - apply IH. rewrite skipn_length. simpl length in *. lia.
+Qed.
+
+Lemma chunks_blocks16 (l : list N) : (length l mod 16 = 0)%nat -> blocks16 (chunks 16 l).
+Proof. apply chunks_fuel_blocks16. Qed.
+
+Lemma chunks_count (l : list N) : (length l mod 16 = 0)%nat -> length (chunks 16 l) = (length l / 16)%nat.
+Proof.
+  intros H. pose proof (concat_blocks_length _ (chunks_blocks16 l H)) as E.
+  rewrite chunks_concat in E by lia. lia.
+Qed.
+
+Lemma sha256_length m : length (sha256 m) = 32%nat.
+Proof.
+  unfold sha256, sha2. destruct (sha2_blocks cfg256 H256 (pad cfg256 m)) as [[[[[[[a b] c] d] e] f] g] h].
+  unfold digest_bytes. cbn [map concat wbytes cfg256]. rewrite firstn_length, !app_length, !be_enc_length. reflexivity.
+Qed.
+
+Lemma hmac256_length k m : length (hmac256 k m) = 32%nat.
+Proof. unfold hmac256, hmac_sha256, hmac_gen. apply sha256_length. Qed.
+
+Lemma eqb_list_refl l : eqb_list l l = true.
+Proof. now apply eqb_list_spec. Qed.
+
+Lemma skipn_firstn_len {A} (l : list A) p : skipn (length (firstn p l)) l = skipn p l.
+Proof.
+  rewrite firstn_length. destruct (Nat.le_gt_cases p (length l)).
+  - now rewrite Nat.min_l.
+  - rewrite Nat.min_r by lia. rewrite skipn_all. symmetry. apply skipn_all2. lia.
+Qed.
+
+Lemma hmac_groups_length n per c : length (hmac_groups n per c) = n.
+Proof.
+  revert c. induction n as [|n IH]; intros c; [reflexivity|].
+  destruct n as [|n']; [reflexivity|].
+  change (hmac_groups (S (S n')) per c) with (firstn per c :: hmac_groups (S n') per (skipn per c)).
+  cbn [length]. now rewrite IH.
+Qed.
+
+Lemma hmac_groups_concat n per c : (0 < n)%nat -> concat (hmac_groups n per c) = c.
+Proof.
+  revert c. induction n as [|n IH]; intros c Hn; [lia|].
+  destruct n as [|n']; [cbn; apply app_nil_r|].
+  change (hmac_groups (S (S n')) per c) with (firstn per c :: hmac_groups (S n') per (skipn per c)).
+  cbn [concat]. rewrite IH by lia. apply firstn_skipn.
+Qed.
+
+Lemma table_length mac gs : length (concat (map (hmac256 mac) gs)) = (32 * length gs)%nat.
+Proof.
+  induction gs as [|g t IH]; [reflexivity|]. cbn [map concat length]. rewrite app_length, hmac256_length, IH. lia.
+Qed.
+
+Lemma rom_groups_ok_built mac per : forall n body,
+  (0 < n)%nat -> rom_groups_ok mac n per body (concat (map (hmac256 mac) (hmac_groups n per body))) = true.
+Proof.
+  induction n as [|n IH]; intros body Hn; [lia|].
+  destruct n as [|n'].
+  - cbn [hmac_groups map concat rom_groups_ok]. rewrite app_nil_r.
+    rewrite (firstn_app_exact _ [] 32 (hmac256_length _ _)) || rewrite firstn_all2 by (rewrite hmac256_length; lia).
+    rewrite eqb_list_refl, skipn_all. reflexivity.
+  - change (hmac_groups (S (S n')) per body) with (firstn per body :: hmac_groups (S n') per (skipn per body)).
+    cbn [map concat].
+    change (rom_groups_ok mac (S (S n')) per body ?t) with
+      (eqb_list (firstn 32 t) (hmac256 mac (firstn per body)) &&
+       rom_groups_ok mac (S n') per (skipn (length (firstn per body)) body) (skipn 32 t)).
+    cbn [rom_groups_ok].
+    rewrite (firstn_app_exact _ _ 32 (hmac256_length _ _)), (skipn_app_exact _ _ 32 (hmac256_length _ _)).
+    rewrite eqb_list_refl, skipn_firstn_len. cbn [andb]. apply IH. lia.
+Qed.
+
+(* ------------------------------------------------------------------ per-block CTR and sections *)
+Section KeyedProofs.
+Variable ek : list N -> list N.
+Hypothesis ek_len : forall b, length (ek b) = 16%nat.
+
+Lemma xblock_length nonce c b : length b = 16%nat -> length (xblock ek nonce c b) = 16%nat.
+Proof. intros H. unfold xblock. rewrite xor_bytes_length; [assumption| now rewrite ek_len]. Qed.
+
+Lemma xblock_invol nonce c b : length b = 16%nat -> xblock ek nonce c (xblock ek nonce c b) = b.
+Proof. intros H. unfold xblock. apply xor_bytes_involutive. now rewrite ek_len. Qed.
+
+Lemma xblocks_blocks16 nonce : forall bs c, blocks16 bs -> blocks16 (xblocks ek nonce c bs).
+Proof.
+  induction bs as [|b t IH]; intros c H; [constructor|]. inversion H; subst.
+  cbn [xblocks]. constructor; [now apply xblock_length| now apply IH].
+Qed.
+
+Lemma xblocks_invol nonce : forall bs c, blocks16 bs -> xblocks ek nonce c (xblocks ek nonce c bs) = bs.
+Proof.
+  induction bs as [|b t IH]; intros c H; [reflexivity|]. inversion H; subst.
+  cbn [xblocks]. rewrite xblock_invol by assumption. now rewrite IH.
+Qed.
+
+Lemma xblocks_length nonce : forall bs c, length (xblocks ek nonce c bs) = length bs.
+Proof. induction bs as [|b t IH]; intros c; [reflexivity|]. cbn [xblocks length]. now rewrite IH. Qed.
+
+(* decrypting the encrypted body with the same starting counter restores it *)
+Lemma body_roundtrip nonce c cd :
+  (length cd mod 16 = 0)%nat ->
+  concat (xblocks ek nonce c (chunks 16 (concat (xblocks ek nonce c (chunks 16 cd))))) = cd.
+Proof.
+  intros H. rewrite chunks_blocks by (apply xblocks_blocks16, chunks_blocks16, H).
+  rewrite xblocks_invol by (apply chunks_blocks16, H). apply chunks_concat. lia.
+Qed.
+
+Lemma body_length nonce c cd :
+  (length cd mod 16 = 0)%nat -> length (concat (xblocks ek nonce c (chunks 16 cd))) = length cd.
+Proof.
+  intros H. rewrite concat_blocks_length by (apply xblocks_blocks16, chunks_blocks16, H).
+  rewrite xblocks_length, chunks_count by assumption. lia.
+Qed.
+
+Lemma pad16z_mult l : (length l mod 16 = 0)%nat -> pad16z l = l.
+Proof. intros H. unfold pad16z. rewrite align16_mult by assumption. rewrite Nat.sub_diag. apply app_nil_r. Qed.
+
+Lemma sec_hmac_count_bounds req raw :
+  (16 <= raw)%nat -> (raw mod 16 = 0)%nat ->
+  (1 <= sec_hmac_count req raw <= raw / 16)%nat.
+Proof.
+  intros H1 H2. unfold sec_hmac_count.
+  replace (Nat.eqb raw 0) with false by (symmetry; apply Nat.eqb_neq; lia).
+  replace ((raw + 15) / 16)%nat with (raw / 16)%nat by lia.
+  assert (Hr : (1 <= (if (req =? 0)%N then 1 else N.to_nat req))%nat).
+  { destruct (req =? 0)%N eqn:E; [lia|]. apply N.eqb_neq in E. lia. }
+  destruct (Nat.leb _ _) eqn:E.
+  - apply Nat.leb_le in E. lia.
+  - lia.
+Qed.
+
+Lemma slice_at {A} (pre x post : list A) a : length pre = a -> slice (pre ++ x ++ post) a (a + length x) = x.
+Proof. intros H. now apply slice_app_mid. Qed.
+
+Definition sec_ok (mac nonce : list N) (ctr : N) (s : section) (b : list N) : Prop :=
+  (48 <= length b)%nat /\ (length b mod 16 = 0)%nat /\
+  ctr + N.of_nat (length b / 16) <= U32 /\
+  (exists cd h, cmds_export (s_cmds s) = Ok cd /\ rom_hdr (xblock ek nonce ctr (firstn 16 b)) = Some h /\
+                h_data h = N.of_nat (sec_hmac_count (s_hmac s) (length cd)) /\
+                length b = sec_size (sec_hmac_count (s_hmac s) (length cd)) (length cd) /\
+                (length cd mod 16 = 0)%nat) /\
+  forall pre post off,
+    length pre = off -> (off mod 16 = 0)%nat -> ctr = ctr_of_nonce nonce + N.of_nat (off / 16) ->
+    rom_section ek mac nonce (pre ++ b ++ post) off = Some (s_uid s, map sem (s_cmds s), length b).
+
+Lemma sec_export_rom mac nonce ctr s b :
+  forallb wf_cmd (s_cmds s) = true -> sec_export ek mac nonce ctr s = Ok b -> sec_ok mac nonce ctr s b.
+Proof.
+  intros W H. unfold sec_export in H.
+  destruct (cmds_stream _ W) as (cd & os & Hcd & Hcdm & Hcdl & Hos & Hfuel).
+  destruct (s_cmds s) as [|c0 ct] eqn:Ecs; [discriminate|]. rewrite <- Ecs in *. rewrite Hcd in H.
+  assert (Hcd16 : (16 <= length cd)%nat) by (rewrite Ecs in Hcdl; cbn [length] in Hcdl; lia).
+  rewrite (pad16z_mult cd Hcdm) in H.
+  set (count := (length cd / 16)%nat) in *.
+  set (hc := sec_hmac_count (s_hmac s) (length cd)) in *.
+  destruct (sec_hmac_count_bounds (s_hmac s) (length cd) Hcd16 Hcdm) as [Hhc1 Hhc2]. fold hc count in Hhc1, Hhc2.
+  set (h := mkHdr TAG_TAG (N.lor SECT_BOOTABLE SECT_LAST_SECT) (s_uid s) (N.of_nat count) (N.of_nat hc)) in *.
+  destruct (hdr_fits h) eqn:Hf; [|discriminate]. cbn [negb] in H.
+  destruct (U32 <? ctr + N.of_nat (3 + 2 * hc + count)) eqn:Hov; [discriminate|]. apply N.ltb_ge in Hov.
+  set (ench := xblock ek nonce ctr (hdr_export h)) in *.
+  set (body := concat (xblocks ek nonce (ctr + N.of_nat (1 + (hc + 1) * 2)) (chunks 16 cd))) in *.
+  set (table := concat (map (hmac256 mac) (hmac_groups hc (count / hc * 16) body))) in *.
+  injection H as <-.
+  assert (Lench : length ench = 16%nat) by (apply xblock_length, hdr_export_length).
+  assert (Lhm : length (hmac256 mac ench) = 32%nat) by apply hmac256_length.
+  assert (Ltab : length table = (32 * hc)%nat) by (unfold table; rewrite table_length, hmac_groups_length; reflexivity).
+  assert (Lbody : length body = (16 * count)%nat).
+  { unfold body. rewrite body_length by assumption. unfold count. lia. }
+  assert (Lb : length (ench ++ hmac256 mac ench ++ table ++ body) = (48 + 32 * hc + 16 * count)%nat).
+  { rewrite !app_length, Lench, Lhm, Ltab, Lbody. lia. }
+  unfold sec_ok. split; [|split; [|split; [|split]]].
+  - rewrite Lb. lia.
+  - rewrite Lb. lia.
+  - rewrite Lb. replace ((48 + 32 * hc + 16 * count) / 16)%nat with (3 + 2 * hc + count)%nat by lia. exact Hov.
+  - exists cd, h. split; [exact Hcd|]. split; [|split].
+    + rewrite (firstn_app_exact ench _ 16 Lench). unfold ench. rewrite xblock_invol by apply hdr_export_length.
+      rewrite <- (app_nil_r (hdr_export h)). now apply rom_hdr_export.
+    + reflexivity.
+    + split; [|exact Hcdm]. rewrite Lb. fold hc. unfold sec_size, count. lia.
+  - intros pre post off Hpre Hoff Hctr.
+    set (file := pre ++ (ench ++ hmac256 mac ench ++ table ++ body) ++ post).
+    assert (S1 : slice file off (off + 16) = ench).
+    { unfold file. rewrite <- !app_assoc. rewrite <- Lench. now apply slice_at. }
+    assert (S2 : slice file (off + 16) (off + 48) = hmac256 mac ench).
+    { unfold file. rewrite <- !app_assoc. rewrite (app_assoc pre ench).
+      replace (off + 48)%nat with ((off + 16) + length (hmac256 mac ench))%nat by lia.
+      apply slice_at. rewrite app_length. lia. }
+    assert (S3 : slice file (off + 48) (off + 48 + 32 * hc) = table).
+    { unfold file. rewrite <- !app_assoc. rewrite (app_assoc pre ench), (app_assoc (pre ++ ench)).
+      rewrite <- Ltab. apply slice_at. rewrite !app_length. lia. }
+    assert (S4 : slice file (off + 48 + 32 * hc) (off + 48 + 32 * hc + 16 * count) = body).
+    { unfold file. rewrite <- !app_assoc.
+      rewrite (app_assoc pre ench), (app_assoc (pre ++ ench)), (app_assoc ((pre ++ ench) ++ _)).
+      rewrite <- Lbody. apply slice_at. rewrite !app_length. lia. }
+    assert (Lfile : length file = (off + (48 + 32 * hc + 16 * count) + length post)%nat).
+    { unfold file. rewrite !app_length. rewrite app_length in Lb. rewrite app_length in Lb. rewrite app_length in Lb. lia. }
+    unfold rom_section. fold file. rewrite <- Hctr. rewrite S1, S2, Lench. cbn [Nat.eqb negb].
+    rewrite eqb_list_refl. cbn [negb].
+    replace (ctr <? U32) with true by (symmetry; apply N.ltb_lt; lia). cbn [negb].
+    unfold ench at 1. rewrite xblock_invol by apply hdr_export_length.
+    rewrite <- (app_nil_r (hdr_export h)). rewrite rom_hdr_export by assumption.
+    cbn [h_count h_data h_tag h_addr h].
+    replace (nlen file <? N.of_nat count * 16) with false by (symmetry; apply N.ltb_ge; unfold nlen; rewrite Lfile; lia).
+    replace (N.of_nat count <? N.of_nat hc) with false by (symmetry; apply N.ltb_ge; lia).
+    cbn [orb]. rewrite !Nat2N.id. change (TAG_TAG =? 1) with true. cbn [negb].
+    replace (Nat.eqb hc 0) with false by (symmetry; apply Nat.eqb_neq; lia).
+    replace (Nat.ltb count hc) with false by (symmetry; apply Nat.ltb_ge; lia). cbn [orb].
+    rewrite S3, S4, Lbody, Nat.eqb_refl. cbn [negb].
+    unfold table at 1. rewrite rom_groups_ok_built by lia. cbn [negb].
+    replace (ctr + N.of_nat (3 + 2 * hc + count) <=? U32) with true by (symmetry; apply N.leb_le; lia). cbn [negb].
+    replace (ctr_of_nonce nonce + N.of_nat ((off + 48 + 32 * hc) / 16)) with (ctr + N.of_nat (1 + (hc + 1) * 2)) by lia.
+    assert (Hplain : concat (xblocks ek nonce (ctr + N.of_nat (1 + (hc + 1) * 2)) (chunks 16 body)) = cd)
+      by (unfold body; apply body_roundtrip; assumption).
+    rewrite !Hplain.
+    destruct (Hfuel (S (length cd)) ltac:(lia)) as [_ Hrom]. rewrite Hrom.
+    rewrite Lb. reflexivity.
+Qed.
+
+Definition secs_wf (ss : list section) : Prop := Forall (fun s => forallb wf_cmd (s_cmds s) = true) ss.
+Definition spec_of (ss : list section) : list (N * list rcmd) := map (fun s => (s_uid s, map sem (s_cmds s))) ss.
+
+Lemma secs_export_rom mac nonce : forall ss ctr bs,
+  secs_wf ss -> secs_export ek mac nonce ctr ss = Ok bs ->
+  (length bs mod 16 = 0)%nat /\ (48 * length ss <= length bs)%nat /\
+  forall pre post off fuel,
+    length pre = off -> (off mod 16 = 0)%nat -> ctr = ctr_of_nonce nonce + N.of_nat (off / 16) ->
+    (length ss < fuel)%nat ->
+    rom_sections ek fuel mac nonce (pre ++ bs ++ post) off (off + length bs) = Some (spec_of ss).
+Proof.
+  induction ss as [|s t IH]; intros ctr bs W H.
+  - cbn [secs_export] in H. injection H as <-. split; [reflexivity|]. split; [cbn; lia|].
+    intros pre post off fuel Hpre Hoff Hctr Hfuel. destruct fuel as [|f]; [lia|].
+    cbn [rom_sections length]. rewrite Nat.add_0_r. rewrite Nat.leb_refl, Nat.eqb_refl. reflexivity.
+  - inversion W as [|? ? Ws Wt]; subst. cbn [secs_export] in H.
+    destruct (sec_export ek mac nonce ctr s) as [b|] eqn:Eb; [|discriminate].
+    destruct (secs_export ek mac nonce (ctr + N.of_nat (length b / 16)) t) as [r|] eqn:Er; [|discriminate].
+    injection H as <-.
+    destruct (sec_export_rom mac nonce ctr s b Ws Eb) as (Hb48 & Hbm & Hbov & _ & Hbrom).
+    destruct (IH _ _ Wt Er) as (Hrm & Hrl & Hrrom).
+    split; [|split].
+    + rewrite app_length. lia.
+    + rewrite app_length. cbn [length]. lia.
+    + intros pre post off fuel Hpre Hoff Hctr Hfuel. destruct fuel as [|f]; [lia|].
+      cbn [rom_sections]. rewrite app_length.
+      replace (Nat.leb (off + (length b + length r)) off) with false by (symmetry; apply Nat.leb_gt; lia).
+      rewrite <- app_assoc. rewrite (Hbrom pre (r ++ post) off Hpre Hoff Hctr).
+      rewrite (app_assoc pre b).
+      replace (off + (length b + length r))%nat with ((off + length b) + length r)%nat by lia.
+      rewrite (Hrrom (pre ++ b) post (off + length b)%nat f).
+      * reflexivity.
+      * rewrite app_length. lia.
+      * lia.
+      * lia.
+      * cbn [length] in Hfuel. lia.
+Qed.
+
+Lemma secs_raw_size_ok mac nonce : forall ss ctr bs ssz,
+  secs_wf ss -> secs_export ek mac nonce ctr ss = Ok bs -> secs_raw_size ss = Ok ssz -> ssz = length bs.
+Proof.
+  induction ss as [|s t IH]; intros ctr bs ssz W H R.
+  - cbn in H, R. injection H as <-. injection R as <-. reflexivity.
+  - inversion W as [|? ? Ws Wt]; subst. cbn [secs_export] in H. cbn [secs_raw_size] in R.
+    destruct (sec_export ek mac nonce ctr s) as [b|] eqn:Eb; [|discriminate].
+    destruct (secs_export ek mac nonce (ctr + N.of_nat (length b / 16)) t) as [r|] eqn:Er; [|discriminate].
+    injection H as <-.
+    destruct (sec_export_rom mac nonce ctr s b Ws Eb) as (_ & _ & _ & (cd & h & Hcd & _ & _ & Hlb & Hcdm) & _).
+    rewrite Hcd in R. destruct (secs_raw_size t) as [rt|] eqn:Ert; [|discriminate]. injection R as <-.
+    rewrite (IH _ _ _ Wt Er eq_refl). rewrite app_length, Hlb. f_equal.
+    apply align16_mult. unfold sec_size. lia.
+Qed.
+
+End KeyedProofs.
+
+(* ------------------------------------------------------------------ ImageHeaderV2 *)
+Lemma ihdr_kinds h :
+  Forall2 (fun f x => match x with FI _ => fst f = false | FB _ => fst f = true end) imghdr_format (ihdr_flds h).
+Proof. destruct h as [? ? ? ? ? ? ? ? ? ? ? ? ? ? [[? ?] ?] [[? ?] ?] ?]. unfold imghdr_format, ihdr_flds, ver_flds. cbn [app ih_pv ih_cv]. repeat constructor. Qed.
+
+Lemma ihdr_pack_length h : length (pack imghdr_format (ihdr_flds h)) = 96%nat.
+Proof.
+  rewrite pack_length; [reflexivity|].
+  destruct h as [? ? ? ? ? ? ? ? ? ? ? ? ? ? [[? ?] ?] [[? ?] ?] ?]. reflexivity.
+Qed.
+
+Lemma ihdr_export_inv h hb : ihdr_export h = Ok hb ->
+  length (ih_nonce h) = 16%nat /\ length (ih_pad h) = 8%nat /\ pack_fits imghdr_format (ihdr_flds h) = true /\
+  hb = pack imghdr_format (ihdr_flds h) /\ length hb = 96%nat.
+Proof.
+  unfold ihdr_export. destruct (Nat.eqb (length (ih_nonce h)) 16) eqn:E1; [|discriminate].
+  destruct (Nat.eqb (length (ih_pad h)) 8) eqn:E2; [|discriminate].
+  destruct (pack_fits imghdr_format (ihdr_flds h)) eqn:E3; [|discriminate]. intros H.
+  change (Ok (pack imghdr_format (ihdr_flds h)) = Ok hb) in H. injection H as H. subst hb.
+  apply Nat.eqb_eq in E1, E2. pose proof (ihdr_pack_length h) as HL. auto.
+Qed.
+
+Lemma ihdr_unpack h hb rest : ihdr_export h = Ok hb ->
+  unpack imghdr_format (hb ++ rest) =
+  [FB (ih_nonce h); FB (firstn 4 (ih_pad h)); FB IMG_SIGNATURE1; FI (ih_major h); FI (ih_minor h); FI (ih_flags h);
+   FI (ih_image_blocks h); FI (ih_first_boot_tag_block h); FI (ih_first_boot_section_id h); FI (ih_cert_off h);
+   FI (ih_header_blocks h); FI (ih_key_blob_block h); FI (ih_key_blob_block_count h); FI (ih_max_mac h);
+   FB IMG_SIGNATURE2; FI (ih_ts h);
+   FI (swap16 (fst (fst (ih_pv h)))); FI 0; FI (swap16 (snd (fst (ih_pv h)))); FI 0; FI (swap16 (snd (ih_pv h))); FI 0;
+   FI (swap16 (fst (fst (ih_cv h)))); FI 0; FI (swap16 (snd (fst (ih_cv h)))); FI 0; FI (swap16 (snd (ih_cv h))); FI 0;
+   FI (ih_build h); FB (skipn 4 (ih_pad h))].
+Proof.
+  intros H. destruct (ihdr_export_inv h hb H) as (Hn & Hp & Hfit & -> & _).
+  rewrite unpack_pack by (apply pack_fits_ok; [|assumption|apply ihdr_kinds];
+                          destruct h as [? ? ? ? ? ? ? ? ? ? ? ? ? ? [[? ?] ?] [[? ?] ?] ?]; reflexivity).
+  destruct h as [nonce pad x1 x2 x3 x4 x5 x6 x7 x8 x9 x10 x11 x12 [[p0 p1] p2] [[c0 c1] c2] x13].
+  cbn [ih_nonce ih_pad ih_pv ih_cv] in *.
+  unfold imghdr_format, ihdr_flds, ver_flds.
+  cbn [app canons canon snd fst ih_nonce ih_pad ih_major ih_minor ih_flags ih_image_blocks ih_first_boot_tag_block
+       ih_first_boot_section_id ih_cert_off ih_header_blocks ih_key_blob_block ih_key_blob_block_count ih_max_mac ih_ts
+       ih_pv ih_cv ih_build].
+  rewrite (fit_exact 16 nonce Hn), (fit_firstn 4 pad) by lia.
+  rewrite (fit_exact 4 (skipn 4 pad)) by (rewrite skipn_length; lia).
+  reflexivity.
+Qed.
+
+(* ------------------------------------------------------------------ RFC 3394: unwrap (wrap x) = x for an inverse pair *)
+Definition blocksK (k : nat) (bs : list (list N)) : Prop := Forall (fun b => length b = k) bs.
+
+Lemma chunks_fuel_blocksK k : (0 < k)%nat -> forall bs fuel,
+  blocksK k bs -> (length bs <= fuel)%nat -> chunks_fuel fuel k (concat bs) = bs.
+Proof.
+  intros Hk. induction bs as [|b t IH]; intros fuel Hb Hf.
+  - destruct fuel; reflexivity.
+  - inversion Hb as [|? ? Hb1 Hbt]; subst. destruct fuel as [|f]; [simpl in Hf; lia|].
+    cbn [concat]. destruct b as [|x b']; [simpl in Hk; lia|].
+    change (chunks_fuel (S f) (length (x :: b')) ((x :: b') ++ concat t))
+      with (firstn (length (x :: b')) ((x :: b') ++ concat t) :: chunks_fuel f (length (x :: b')) (skipn (length (x :: b')) ((x :: b') ++ concat t))).
+    rewrite (firstn_app_exact (x :: b') _ _ eq_refl), (skipn_app_exact (x :: b') _ _ eq_refl).
+    rewrite IH; [reflexivity|assumption| simpl in Hf; lia].
+Qed.
+
+Lemma concat_blocksK_length k bs : blocksK k bs -> length (concat bs) = (k * length bs)%nat.
+Proof.
+  induction bs as [|b t IH]; intros H; [cbn; lia|]. inversion H; subst.
+  cbn [concat length]. rewrite app_length, IH by assumption. lia.
+Qed.
+
+Lemma chunks_blocksK k bs : (0 < k)%nat -> blocksK k bs -> chunks k (concat bs) = bs.
+Proof.
+  intros Hk H. unfold chunks. apply chunks_fuel_blocksK; [assumption|assumption|].
+  rewrite (concat_blocksK_length k) by assumption. nia.
+Qed.
+
+Lemma chunks_fuel_blocksK_of k : (0 < k)%nat -> forall fuel (l : list N),
+  (length l mod k = 0)%nat -> blocksK k (chunks_fuel fuel k l).
+Proof.
+  intros Hk. induction fuel as [|f IH]; intros l Hl; [constructor|].
+  destruct l as [|x t]; [constructor|]. cbn [chunks_fuel]. constructor.
+  - rewrite firstn_length. apply Nat.min_l. apply Nat.mod_divides in Hl; [|lia]. destruct Hl as [c Hc].
+    rewrite Hc. destruct c; [cbn [length] in Hc; lia| nia].
+  - apply IH. rewrite skipn_length. apply Nat.mod_divides in Hl; [|lia]. destruct Hl as [c Hc]. rewrite Hc.
+    destruct c; [cbn [length] in Hc; lia|]. replace (k * S c - k)%nat with (c * k)%nat by nia. apply Nat.mod_mul. lia.
+Qed.
+
+Section KW.
+Variable E D : list N -> list N.
+Hypothesis E_len : forall b, length (E b) = 16%nat.
+Hypothesis DE : forall b, length b = 16%nat -> D (E b) = b.
+
+Lemma kw_pass_cons a t r rest :
+  kw_pass E a t (r :: rest) =
+  let '(a'', rest') := kw_pass E (xor_bytes (firstn 8 (E (a ++ r))) (be_enc 8 t)) (t + 1) rest in
+  (a'', skipn 8 (E (a ++ r)) :: rest').
+Proof. reflexivity. Qed.
+
+Lemma kw_unpass_cons a t r rest :
+  kw_unpass D a t (r :: rest) =
+  let '(a', rest') := kw_unpass D (firstn 8 (D (xor_bytes a (be_enc 8 t) ++ r))) (t - 1) rest in
+  (a', skipn 8 (D (xor_bytes a (be_enc 8 t) ++ r)) :: rest').
+Proof. reflexivity. Qed.
+
+Lemma kw_pass_inv : forall rs a t a2 rs2,
+  length a = 8%nat -> blocksK 8 rs -> kw_pass E a t rs = (a2, rs2) ->
+  blocksK 8 rs2 /\ length a2 = 8%nat /\ length rs2 = length rs.
+Proof.
+  induction rs as [|r rest IH]; intros a t a2 rs2 Ha Hb H.
+  - cbn in H. injection H as <- <-. split; [constructor|split; [assumption|reflexivity]].
+  - inversion Hb as [|? ? Hr Hrest]; subst. rewrite kw_pass_cons in H.
+    destruct (kw_pass E (xor_bytes (firstn 8 (E (a ++ r))) (be_enc 8 t)) (t + 1) rest) as [a'' rest'] eqn:Ep.
+    injection H as <- <-.
+    assert (Ha' : length (xor_bytes (firstn 8 (E (a ++ r))) (be_enc 8 t)) = 8%nat).
+    { rewrite xor_bytes_length; rewrite firstn_length, E_len; [reflexivity| now rewrite be_enc_length]. }
+    destruct (IH _ _ _ _ Ha' Hrest Ep) as (B & L & Len).
+    assert (Hs : length (skipn 8 (E (a ++ r))) = 8%nat) by (rewrite skipn_length, E_len; reflexivity).
+    split; [|split].
+    + constructor; [exact Hs | assumption].
+    + assumption.
+    + cbn [length]. now rewrite Len.
+Qed.
+
+Lemma kw_unpass_app : forall l1 l2 a t,
+  kw_unpass D a t (l1 ++ l2) =
+  let '(a1, l1') := kw_unpass D a t l1 in
+  let '(a2, l2') := kw_unpass D a1 (t - nlen l1) l2 in (a2, l1' ++ l2').
+Proof.
+  induction l1 as [|r rest IH]; intros l2 a t.
+  - cbn [app kw_unpass nlen length N.of_nat]. rewrite N.sub_0_r. destruct (kw_unpass D a t l2). reflexivity.
+  - cbn [app]. rewrite !kw_unpass_cons. rewrite IH.
+    destruct (kw_unpass D (firstn 8 (D (xor_bytes a (be_enc 8 t) ++ r))) (t - 1) rest) as [a1 l1'].
+    replace (t - nlen (r :: rest)) with (t - 1 - nlen rest) by (unfold nlen; cbn [length]; lia).
+    destruct (kw_unpass D a1 (t - 1 - nlen rest) l2) as [a2 l2']. reflexivity.
+Qed.
+
+Lemma kw_pass_unpass : forall rs a t a2 rs2,
+  length a = 8%nat -> blocksK 8 rs -> kw_pass E a t rs = (a2, rs2) -> 1 <= t ->
+  kw_unpass D a2 (t + nlen rs - 1) (rev rs2) = (a, rev rs).
+Proof.
+  induction rs as [|r rest IH]; intros a t a2 rs2 Ha Hb H Ht.
+  - cbn in H. injection H as <- <-. reflexivity.
+  - inversion Hb as [|? ? Hr Hrest]; subst. rewrite kw_pass_cons in H.
+    set (b := E (a ++ r)) in *.
+    set (a' := xor_bytes (firstn 8 b) (be_enc 8 t)) in *.
+    destruct (kw_pass E a' (t + 1) rest) as [a'' rest'] eqn:Ep. injection H as <- <-.
+    assert (Hb16 : length b = 16%nat) by apply E_len.
+    assert (Ha' : length a' = 8%nat).
+    { unfold a'. rewrite xor_bytes_length; rewrite firstn_length, Hb16; [reflexivity| now rewrite be_enc_length]. }
+    destruct (kw_pass_inv _ _ _ _ _ Ha' Hrest Ep) as (B & L & Len).
+    pose proof (IH _ _ _ _ Ha' Hrest Ep ltac:(lia)) as IH1.
+    cbn [rev]. rewrite kw_unpass_app.
+    replace (t + nlen (r :: rest) - 1) with (t + 1 + nlen rest - 1) by (unfold nlen; cbn [length]; lia).
+    rewrite IH1. rewrite kw_unpass_cons. cbn [kw_unpass].
+    replace (t + 1 + nlen rest - 1 - nlen (rev rest')) with t by (unfold nlen; rewrite rev_length, Len; lia).
+    assert (Hx : xor_bytes a' (be_enc 8 t) = firstn 8 b).
+    { unfold a'. apply xor_bytes_involutive. rewrite firstn_length, Hb16, be_enc_length. reflexivity. }
+    rewrite Hx, firstn_skipn. unfold b. rewrite DE by (rewrite app_length; lia).
+    rewrite (firstn_app_exact a r 8 Ha), (skipn_app_exact a r 8 Ha). reflexivity.
+Qed.
+
+Lemma kw_passes_inv : forall j rs a t a2 rs2,
+  length a = 8%nat -> blocksK 8 rs -> kw_passes E j a t rs = (a2, rs2) ->
+  blocksK 8 rs2 /\ length a2 = 8%nat /\ length rs2 = length rs.
+Proof.
+  induction j as [|j IH]; intros rs a t a2 rs2 Ha Hb H.
+  - cbn in H. injection H as <- <-. auto.
+  - cbn [kw_passes] in H. destruct (kw_pass E a t rs) as [a' rs'] eqn:Ep.
+    destruct (kw_pass_inv _ _ _ _ _ Ha Hb Ep) as (B & L & Len).
+    destruct (IH _ _ _ _ _ L B H) as (B2 & L2 & Len2). split; [assumption|split; [assumption|congruence]].
+Qed.
+
+Lemma kw_passes_snoc : forall j rs a t,
+  length a = 8%nat -> blocksK 8 rs ->
+  kw_passes E (S j) a t rs =
+  let '(a1, rs1) := kw_passes E j a t rs in kw_pass E a1 (t + N.of_nat j * nlen rs) rs1.
+Proof.
+  induction j as [|j IH]; intros rs a t Ha Hb.
+  - cbn [kw_passes N.of_nat]. rewrite N.mul_0_l, N.add_0_r. destruct (kw_pass E a t rs). reflexivity.
+  - change (kw_passes E (S (S j)) a t rs) with
+      (let '(a', rs') := kw_pass E a t rs in kw_passes E (S j) a' (t + nlen rs) rs').
+    change (kw_passes E (S j) a t rs) with
+      (let '(a', rs') := kw_pass E a t rs in kw_passes E j a' (t + nlen rs) rs').
+    destruct (kw_pass E a t rs) as [a' rs'] eqn:Ep.
+    destruct (kw_pass_inv _ _ _ _ _ Ha Hb Ep) as (B & L & Len).
+    rewrite IH by assumption.
+    destruct (kw_passes E j a' (t + nlen rs) rs') as [a1 rs1].
+    replace (t + nlen rs + N.of_nat j * nlen rs') with (t + N.of_nat (S j) * nlen rs)
+      by (unfold nlen; rewrite Len; lia).
+    reflexivity.
+Qed.
+
+Lemma kw_passes_unpasses : forall j rs a t a2 rs2,
+  length a = 8%nat -> blocksK 8 rs -> 1 <= t -> kw_passes E j a t rs = (a2, rs2) ->
+  kw_unpasses D j a2 (t + N.of_nat j * nlen rs - 1) (rev rs2) = (a, rev rs).
+Proof.
+  induction j as [|j IH]; intros rs a t a2 rs2 Ha Hb Ht H.
+  - cbn in H. injection H as <- <-. reflexivity.
+  - rewrite kw_passes_snoc in H by assumption.
+    destruct (kw_passes E j a t rs) as [a1 rs1] eqn:Ej.
+    destruct (kw_passes_inv _ _ _ _ _ _ Ha Hb Ej) as (B1 & L1 & Len1).
+    destruct (kw_pass_inv _ _ _ _ _ L1 B1 H) as (B2 & L2 & Len2).
+    cbn [kw_unpasses].
+    pose proof (kw_pass_unpass _ _ _ _ _ L1 B1 H ltac:(lia)) as HU.
+    replace (t + N.of_nat (S j) * nlen rs - 1) with (t + N.of_nat j * nlen rs + nlen rs1 - 1)
+      by (unfold nlen; rewrite Len1; lia).
+    rewrite HU.
+    replace (t + N.of_nat j * nlen rs + nlen rs1 - 1 - nlen (rev rs2)) with (t + N.of_nat j * nlen rs - 1)
+      by (unfold nlen; rewrite rev_length, Len2; lia).
+    apply IH; assumption.
+Qed.
+
+Lemma kw_iv_length : length kw_iv = 8%nat. Proof. reflexivity. Qed.
+
+Lemma kw_wrap_unwrap data :
+  (length data mod 8 = 0)%nat ->
+  length (kw_wrap E data) = (8 + length data)%nat /\ kw_unwrap D (kw_wrap E data) = Some data.
+Proof.
+  intros Hd. unfold kw_wrap.
+  assert (Bd : blocksK 8 (chunks 8 data)) by (apply chunks_fuel_blocksK_of; [lia|assumption]).
+  destruct (kw_passes E 6 kw_iv 1 (chunks 8 data)) as [a rs] eqn:Ew.
+  destruct (kw_passes_inv _ _ _ _ _ _ kw_iv_length Bd Ew) as (B & L & Len).
+  assert (H11 : 1 <= 1) by lia.
+  pose proof (kw_passes_unpasses 6 (chunks 8 data) kw_iv 1 a rs kw_iv_length Bd H11 Ew) as HU.
+  assert (Ld : length (concat rs) = length data).
+  { rewrite (concat_blocksK_length 8 rs B), Len.
+    rewrite <- (concat_blocksK_length 8 _ Bd), chunks_concat by lia. reflexivity. }
+  split.
+  - rewrite app_length, L, Ld. reflexivity.
+  - unfold kw_unwrap. rewrite (firstn_app_exact a _ 8 L), (skipn_app_exact a _ 8 L).
+    rewrite (chunks_blocksK 8 rs) by (lia || assumption).
+    replace (6 * nlen rs) with (1 + N.of_nat 6 * nlen (chunks 8 data) - 1) by (unfold nlen; rewrite Len; lia).
+    rewrite HU. rewrite eqb_list_refl, rev_involutive, chunks_concat by lia. reflexivity.
+Qed.
+
+End KW.
+
+(* ------------------------------------------------------------------ BootImageV21 and the ROM *)
+Lemma testbit15 f : N.testbit f 15 = negb (N.land f 32768 =? 0).
+Proof.
+  destruct (N.testbit f 15) eqn:E.
+  - destruct (N.land f 32768 =? 0) eqn:E2; [|reflexivity]. apply N.eqb_eq in E2.
+    assert (H : N.testbit (N.land f 32768) 15 = false) by (rewrite E2; apply N.bits_0).
+    rewrite N.land_spec, E in H. discriminate H.
+  - destruct (N.land f 32768 =? 0) eqn:E2; [reflexivity|]. apply N.eqb_neq in E2. exfalso. apply E2.
+    apply N.bits_inj_0. intros n. rewrite N.land_spec. change 32768 with (2 ^ 15). rewrite N.pow2_bits_eqb.
+    destruct (N.eqb_spec 15 n) as [<-|Hn]; [now rewrite E| apply andb_false_r].
+Qed.
+
+Lemma bswap_swap16 v : v < 65536 -> bswap (swap16 v) = v.
+Proof. intros H. unfold bswap, swap16. lia. Qed.
+
+Lemma slice_app_shift {A} (pre l : list A) a b : length pre = a -> slice (pre ++ l) (a + b) (a + b + 0) = [] .
+Proof. intros. unfold slice. replace (a + b + 0 - (a + b))%nat with 0%nat by lia. reflexivity. Qed.
+
+Lemma slice_app_r {A} (pre l : list A) n a b : length pre = n -> slice (pre ++ l) (n + a) (n + b) = slice l a b.
+Proof.
+  intros H. unfold slice. rewrite skipn_app. rewrite skipn_all2 by lia.
+  replace (n + a - length pre)%nat with a by lia. replace (n + b - (n + a))%nat with (b - a)%nat by lia. reflexivity.
+Qed.
+
+Definition ver_ok (v : N * N * N) : Prop := fst (fst v) < 65536 /\ snd (fst v) < 65536 /\ snd v < 65536.
+
+Definition wf_sbin (x : sbin) : Prop :=
+  secs_wf (x_secs x) /\ length (x_dek x) = 32%nat /\ length (x_mac x) = 32%nat /\
+  length (x_sig x) = x_sigsize x /\ ver_ok (x_pv x) /\ ver_ok (x_cv x).
+
+Lemma cb_export_inv cb build il cbb : cb_export cb build il = Ok cbb ->
+  length cbb = cb_raw_size cb /\
+  exists tl, cbb = pack certhdr_format [FB CERT_SIGNATURE; FI 1; FI 0; FI (N.of_nat CERTHDR_SIZE); FI (cb_flags cb); FI build; FI il;
+                                         FI (nlen (cb_certs cb)); FI (N.of_nat (cb_table_len cb))] ++ tl /\
+  pack_fits certhdr_format [FB CERT_SIGNATURE; FI 1; FI 0; FI (N.of_nat CERTHDR_SIZE); FI (cb_flags cb); FI build; FI il;
+                            FI (nlen (cb_certs cb)); FI (N.of_nat (cb_table_len cb))] = true.
+Proof.
+  unfold cb_export. set (flds := [FB CERT_SIGNATURE; _; _; _; _; _; _; _; _]).
+  destruct (pack_fits certhdr_format flds) eqn:Ef; [|discriminate]. cbn [negb].
+  set (d := pad16z _). destruct (Nat.eqb (length d) (cb_raw_size cb)) eqn:El; [|discriminate].
+  intros H. injection H as <-. apply Nat.eqb_eq in El. split; [assumption|].
+  eexists. split; [|reflexivity]. unfold d, pad16z. rewrite <- !app_assoc. reflexivity.
+Qed.
+
+Ltac step_none tac :=
+  match goal with
+  | |- context [if ?c then None else _] => let Hc := fresh "Hc" in assert (Hc : c = false) by tac; rewrite Hc; clear Hc
+  end.
+
+Section CipherProofs.
+Variable E D : list N -> list N -> list N.
+Hypothesis E_len : forall k b, length (E k b) = 16%nat.
+Hypothesis DE : forall k b, length b = 16%nat -> D k (E k b) = b.
+
+Definition signed_len_of (x : sbin) : nat :=
+  (208 + cb_raw_size (x_cb x) + (if has_sha (x_flags x) then 32 else 0))%nat.
+
+Lemma rom21_build_lemma counted x file :
+  wf_sbin x -> (counted = true \/ has_sha (x_flags x) = false) ->
+  build21_gen E counted x = Ok file ->
+  exists r, rom21 E D (x_sigsize x) (x_kek x) file = Some r /\
+     r_secs r = spec_of (x_secs x) /\ r_flags r = x_flags x /\ r_pv r = x_pv x /\ r_cv r = x_cv x /\
+     r_build r = x_build x /\ r_ts r = x_ts x /\ r_major r = 2 /\ r_minor r = 1 /\
+     r_sig r = x_sig x /\ r_signed_len r = signed_len_of x.
+Proof.
+  intros (Wsecs & Wdek & Wmac & Wsig & Wpv & Wcv) Hcnt H. unfold build21_gen in H.
+  destruct (x_secs x) as [|s0 st] eqn:Esecs; [discriminate|]. rewrite <- Esecs in *.
+  destruct (secs_raw_size (x_secs x)) as [ssz|] eqn:Essz; [|discriminate].
+  set (cbraw := cb_raw_size (x_cb x)) in *.
+  set (sha := has_sha (x_flags x)) in *.
+  set (shasz := if sha then N.to_nat V21_SHA_256_SIZE else 0%nat) in *.
+  set (cnt := if counted then shasz else 0%nat) in *.
+  set (tagoff := (PRE_SIZE + cbraw + x_sigsize x + cnt)%nat) in *.
+  set (rawsz := (tagoff + ssz)%nat) in *.
+  set (bsoff := (PRE_SIZE + cbraw + x_sigsize x + shasz)%nat) in *.
+  destruct (aligned16 tagoff) eqn:Atag; [|discriminate].
+  destruct (aligned16 rawsz) eqn:Araw; [|discriminate].
+  destruct (Nat.eqb (length (x_nonce x)) 16) eqn:Enonce; [|discriminate].
+  destruct (aligned16 bsoff) eqn:Abs; [|discriminate]. cbn [negb] in H.
+  destruct (secs_export (E (x_dek x)) (x_mac x) (x_nonce x) (ctr_of_nonce (x_nonce x) + N.of_nat (bsoff / 16)) (x_secs x))
+    as [bs|] eqn:Ebs; [|discriminate].
+  set (hdr := mkIhdr _ _ _ _ _ _ _ _ _ _ _ _ _ _ _ _ _) in H.
+  destruct (ihdr_export hdr) as [hb|] eqn:Ehb; [|discriminate].
+  set (hc0 := match cmds_export (s_cmds s0) with Ok cd => sec_hmac_count (s_hmac s0) (length cd) | Err _ => 0%nat end) in *.
+  set (hm := hmac256 (x_mac x) (slice bs 16 (16 + hc0 * 32 + 32))) in *.
+  set (kb0 := wrap_keys E (x_kek x) (x_dek x) (x_mac x)) in *.
+  set (kb := kb0 ++ zeros (N.to_nat V21_KEY_BLOB_SIZE - length kb0)) in *.
+  destruct (cb_export (x_cb x) (x_build x) (N.of_nat (PRE_SIZE + cbraw))) as [cbb|] eqn:Ecb; [|discriminate].
+  set (shab := if sha then sha256 bs else []) in *.
+  injection H as <-.
+  (* ---- lengths of the pieces *)
+  destruct (ihdr_export_inv hdr hb Ehb) as (_ & _ & _ & _ & Lhb).
+  assert (Lhm : length hm = 32%nat) by apply hmac256_length.
+  assert (Hdm : (length (x_dek x ++ x_mac x) mod 8 = 0)%nat) by (rewrite app_length, Wdek, Wmac; reflexivity).
+  destruct (kw_wrap_unwrap (E (x_kek x)) (D (x_kek x)) (E_len _) (DE _) (x_dek x ++ x_mac x) Hdm) as [Lkb0 Hunwrap].
+  fold (wrap_keys E (x_kek x) (x_dek x) (x_mac x)) in Lkb0, Hunwrap. fold kb0 in Lkb0, Hunwrap.
+  rewrite app_length, Wdek, Wmac in Lkb0. change (8 + (32 + 32))%nat with 72%nat in Lkb0.
+  assert (Lkb : length kb = 80%nat) by (unfold kb; rewrite app_length, zeros_length, Lkb0; reflexivity).
+  destruct (cb_export_inv _ _ _ _ Ecb) as (Lcbb & cbtl & Ecbb & Fcb). fold cbraw in Lcbb.
+  assert (Hshasz : shasz = if sha then 32%nat else 0%nat) by reflexivity.
+  assert (Lshab : length shab = shasz) by (unfold shab, shasz; destruct sha; [apply sha256_length|reflexivity]).
+  assert (Htag : tagoff = bsoff).
+  { unfold tagoff, bsoff, cnt. destruct Hcnt as [->|Hs]; [reflexivity|]. unfold shasz. fold sha in Hs. rewrite Hs.
+    destruct counted; reflexivity. }
+  destruct (secs_export_rom (E (x_dek x)) (E_len _) (x_mac x) (x_nonce x) _ _ _ Wsecs Ebs) as (Hbsm & Hbsl & Hrom).
+  pose proof (secs_raw_size_ok (E (x_dek x)) (E_len _) (x_mac x) (x_nonce x) _ _ _ _ Wsecs Ebs Essz) as Hssz.
+  assert (Hnsec : (1 <= length (x_secs x))%nat) by (rewrite Esecs; cbn [length]; lia).
+  change PRE_SIZE with 208%nat in *.
+  set (pre1 := hb ++ hm ++ kb ++ cbb ++ shab).
+  assert (Lpre1 : length pre1 = (208 + cbraw + shasz)%nat).
+  { unfold pre1. rewrite !app_length, Lhb, Lhm, Lkb, Lcbb, Lshab. lia. }
+  set (file := pre1 ++ x_sig x ++ bs).
+  assert (Lfile : length file = (bsoff + length bs)%nat).
+  { unfold file. rewrite !app_length, Lpre1, Wsig. unfold bsoff. lia. }
+  apply Nat.eqb_eq in Enonce. unfold aligned16 in Atag, Araw, Abs. apply Nat.eqb_eq in Atag, Araw, Abs.
+  (* ---- the ROM *)
+  unfold rom21.
+  replace (Nat.ltb (length file) 208) with false by (symmetry; apply Nat.ltb_ge; rewrite Lfile; unfold bsoff; lia).
+  change rom_imghdr_layout with imghdr_format.
+  assert (Hunp : unpack imghdr_format file = _) by (unfold file, pre1; rewrite <- !app_assoc; apply (ihdr_unpack hdr hb _ Ehb)).
+  rewrite Hunp. clear Hunp. cbv beta iota.
+  step_none reflexivity.
+  step_none reflexivity.
+  step_none reflexivity.
+  assert (Skb : slice file 128 200 = kb0).
+  { unfold file, pre1, kb. rewrite <- !app_assoc. rewrite (app_assoc hb hm).
+    replace 200%nat with (128 + length kb0)%nat by (rewrite Lkb0; reflexivity). apply slice_at. rewrite app_length. lia. }
+  rewrite Skb, Hunwrap. cbv beta iota.
+  rewrite (firstn_app_exact (x_dek x) (x_mac x) 32 Wdek), (skipn_app_exact (x_dek x) (x_mac x) 32 Wdek).
+  step_none ltac:(rewrite app_length, Wdek, Wmac; reflexivity).
+  (* certificate block header *)
+  assert (Sk208 : skipn 208 file = cbb ++ shab ++ x_sig x ++ bs).
+  { unfold file, pre1. rewrite <- !app_assoc. rewrite (app_assoc hb hm), (app_assoc (hb ++ hm) kb).
+    apply skipn_app_exact. rewrite !app_length. lia. }
+  rewrite Sk208. change rom_certhdr_layout with certhdr_format.
+  set (cflds := [FB CERT_SIGNATURE; FI 1; FI 0; FI (N.of_nat CERTHDR_SIZE); FI (cb_flags (x_cb x)); FI (x_build x);
+                 FI (N.of_nat (208 + cbraw)); FI (nlen (cb_certs (x_cb x))); FI (N.of_nat (cb_table_len (x_cb x)))]) in *.
+  assert (Hcu : unpack certhdr_format (cbb ++ shab ++ x_sig x ++ bs) = canons certhdr_format cflds).
+  { rewrite Ecbb, <- app_assoc. apply unpack_pack. apply pack_fits_ok; [reflexivity|exact Fcb|].
+    unfold certhdr_format, cflds. repeat constructor. }
+  rewrite Hcu. clear Hcu. unfold cflds, certhdr_format. cbn [canons canon snd]. cbv beta iota.
+  step_none reflexivity.
+  assert (Hctl : (cb_table_len (x_cb x) <= cbraw)%nat).
+  { unfold cbraw, cb_raw_size. pose proof (align16_ge (CERTHDR_SIZE + cb_table_len (x_cb x) + 128)). lia. }
+  assert (Hraw : rawsz = length file) by (unfold rawsz; rewrite Htag, Hssz, Lfile; reflexivity).
+  assert (Hbs48 : (48 <= length bs)%nat) by lia.
+  step_none ltac:(cbn [ih_image_blocks ih_first_boot_tag_block hdr]; unfold nlen; rewrite <- Hraw;
+                  apply orb_false_iff; split; [apply orb_false_iff; split|];
+                  [apply N.ltb_ge; lia | apply N.ltb_ge; lia | apply N.leb_gt; unfold rawsz; lia]).
+  cbv zeta.
+  replace ((32 + N.to_nat (N.of_nat (cb_table_len (x_cb x))) + 128 + 15) / 16 * 16)%nat with cbraw
+    by (rewrite Nat2N.id; reflexivity).
+  cbn [ih_flags ih_image_blocks ih_first_boot_tag_block ih_nonce hdr].
+  rewrite (testbit15 (x_flags x)). change (negb (N.land (x_flags x) 32768 =? 0)) with sha.
+  change (if sha then 32%nat else 0%nat) with shasz.
+  replace (N.to_nat (N.of_nat (tagoff / 16)) * 16)%nat with bsoff by (rewrite Nat2N.id, <- Htag; lia).
+  replace (N.to_nat (N.of_nat (rawsz / 16)) * 16)%nat with (length file) by (rewrite Nat2N.id, <- Hraw; lia).
+  assert (Ssig : slice file (208 + cbraw + shasz) (208 + cbraw + shasz + x_sigsize x) = x_sig x).
+  { unfold file. rewrite <- Wsig. apply slice_at. exact Lpre1. }
+  rewrite Ssig.
+  step_none ltac:(rewrite Wsig, Nat.eqb_refl; reflexivity).
+  step_none ltac:(apply negb_false_iff; rewrite !andb_true_iff; repeat split;
+                  [apply Nat.leb_le; unfold bsoff; lia | apply Nat.ltb_lt; rewrite Lfile; lia | apply Nat.leb_le; lia]).
+  rewrite firstn_all.
+  assert (Sbs : skipn bsoff file = bs).
+  { unfold file. rewrite app_assoc. apply skipn_app_exact. rewrite app_length, Lpre1, Wsig. unfold bsoff. lia. }
+  rewrite Sbs.
+  assert (Hshack : sha && negb (eqb_list (slice file (208 + cbraw) (208 + cbraw + 32)) (sha256 bs)) = false).
+  { destruct sha eqn:Esha; [|reflexivity]. cbn [andb]. apply negb_false_iff.
+    assert (S : slice file (208 + cbraw) (208 + cbraw + 32) = sha256 bs).
+    { unfold file, pre1. rewrite <- !app_assoc.
+      rewrite (app_assoc hb hm), (app_assoc (hb ++ hm) kb), (app_assoc ((hb ++ hm) ++ kb) cbb).
+      unfold shab. replace (208 + cbraw + 32)%nat with (208 + cbraw + length (sha256 bs))%nat by (rewrite sha256_length; reflexivity).
+      apply slice_at. rewrite !app_length. lia. }
+    rewrite S. apply eqb_list_refl. }
+  rewrite Hshack. clear Hshack.
+  (* first section: header, image header MAC *)
+  pose proof Ebs as Ebs0. rewrite Esecs in Ebs0. cbn [secs_export] in Ebs0.
+  destruct (sec_export (E (x_dek x)) (x_mac x) (x_nonce x) (ctr_of_nonce (x_nonce x) + N.of_nat (bsoff / 16)) s0)
+    as [b0|] eqn:Eb0; [|discriminate].
+  destruct (secs_export (E (x_dek x)) (x_mac x) (x_nonce x) _ st) as [r0|] eqn:Er0; [|discriminate].
+  injection Ebs0 as Ebs0.
+  assert (Ws0 : forallb wf_cmd (s_cmds s0) = true) by (rewrite Esecs in Wsecs; now inversion Wsecs).
+  destruct (sec_export_rom (E (x_dek x)) (E_len _) _ _ _ _ _ Ws0 Eb0)
+    as (Hb48 & Hb0m & _ & (cd0 & h0 & Hcd0 & Hh0 & Hh0d & Lb0 & _) & _).
+  assert (Hhc0 : hc0 = sec_hmac_count (s_hmac s0) (length cd0)) by (unfold hc0; rewrite Hcd0; reflexivity).
+  assert (S16 : slice file bsoff (bsoff + 16) = firstn 16 b0).
+  { unfold file. rewrite <- Ebs0.
+    replace (pre1 ++ x_sig x ++ b0 ++ r0) with ((pre1 ++ x_sig x) ++ firstn 16 b0 ++ (skipn 16 b0 ++ r0))
+      by (rewrite <- !app_assoc; do 2 f_equal; rewrite app_assoc, firstn_skipn; reflexivity).
+    replace (bsoff + 16)%nat with (bsoff + length (firstn 16 b0))%nat by (rewrite firstn_length; lia).
+    apply slice_at. rewrite app_length, Lpre1, Wsig. unfold bsoff. lia. }
+  rewrite S16, Hh0. cbv beta iota.
+  unfold sec_size in Lb0.
+  step_none ltac:(apply N.ltb_ge; unfold nlen; rewrite Hh0d, Lfile, <- Ebs0, app_length; lia).
+  rewrite Hh0d, Nat2N.id, <- Hhc0.
+  assert (Shm : slice file 96 128 = hm).
+  { unfold file, pre1. rewrite <- !app_assoc. replace 128%nat with (96 + length hm)%nat by (rewrite Lhm; reflexivity). apply slice_at. exact Lhb. }
+  assert (Stab : slice file (bsoff + 16) (bsoff + 48 + 32 * hc0) = slice bs 16 (16 + hc0 * 32 + 32)).
+  { unfold file. rewrite app_assoc. replace (bsoff + 48 + 32 * hc0)%nat with (bsoff + (16 + hc0 * 32 + 32))%nat by lia.
+    apply slice_app_r. rewrite app_length, Lpre1, Wsig. unfold bsoff. lia. }
+  rewrite Shm, Stab. fold hm. rewrite eqb_list_refl. cbn [negb].
+  (* all sections *)
+  assert (Hwalk : rom_sections (E (x_dek x)) (S (length file)) (x_mac x) (x_nonce x) file bsoff (length file)
+                  = Some (spec_of (x_secs x))).
+  { rewrite Lfile.
+    replace file with ((pre1 ++ x_sig x) ++ bs ++ []) by (unfold file; rewrite app_nil_r, app_assoc; reflexivity).
+    apply Hrom; [rewrite app_length, Lpre1, Wsig; unfold bsoff; lia | exact Abs | reflexivity | lia]. }
+  rewrite Hwalk.
+  eexists. split; [reflexivity|]. cbn [r_secs r_flags r_pv r_cv r_build r_ts r_major r_minor r_sig r_signed_len ih_major ih_minor
+                                     ih_pv ih_cv ih_build ih_ts hdr].
+  destruct Wpv as (P1 & P2 & P3). destruct Wcv as (C1 & C2 & C3).
+  destruct (x_pv x) as [[p0 p1] p2]. destruct (x_cv x) as [[c0 c1] c2]. cbn [fst snd] in *.
+  rewrite !bswap_swap16 by assumption. repeat split. 
+Qed.
+
+End CipherProofs.
+
+(* ------------------------------------------------------------------ ImageHeaderV2.parse (export h) = h *)
+Definition bcd3 (v : N * N * N) : bool := bcd_ok (fst (fst v)) && bcd_ok (snd (fst v)) && bcd_ok (snd v).
+
+Lemma swap16_invol v : v < 65536 -> swap16 (swap16 v) = v.
+Proof. intros H. unfold swap16. lia. Qed.
+
+Lemma bcd_ok_lt v : bcd_ok v = true -> v < 65536.
+Proof. unfold bcd_ok. rewrite !andb_true_iff. intros ((((H & _) & _) & _) & _). apply N.leb_le in H. lia. Qed.
+
+Lemma ihdr_parse_export h hb rest :
+  ihdr_export h = Ok hb -> bcd3 (ih_pv h) = true -> bcd3 (ih_cv h) = true -> ihdr_parse (hb ++ rest) = Ok h.
+Proof.
+  intros He Hp Hc. destruct (ihdr_export_inv h hb He) as (Hn & Hpad & _ & _ & Lhb).
+  unfold ihdr_parse.
+  replace (Nat.ltb (length (hb ++ rest)) IHDR_SIZE) with false
+    by (symmetry; apply Nat.ltb_ge; rewrite app_length, Lhb; change IHDR_SIZE with 96%nat; lia).
+  rewrite (ihdr_unpack h hb rest He). cbv beta iota.
+  rewrite !eqb_list_refl. cbn [negb].
+  unfold bcd3 in Hp, Hc. apply andb_true_iff in Hp as [Hp P3]. apply andb_true_iff in Hp as [P1 P2].
+  apply andb_true_iff in Hc as [Hc C3]. apply andb_true_iff in Hc as [C1 C2].
+  rewrite !swap16_invol by (apply bcd_ok_lt; assumption).
+  rewrite P1, P2, P3, C1, C2, C3. cbn [andb negb]. rewrite firstn_skipn.
+  destruct h as [nonce pad x1 x2 x3 x4 x5 x6 x7 x8 x9 x10 x11 x12 [[p0 p1] p2] [[c0 c1] c2] x13]. reflexivity.
+Qed.
+
+(* ------------------------------------------------------------------ coverage: who authenticates which byte *)
+(* a run of n sections, each = encrypted header (16) ++ HMAC(header) ++ [HMAC(g) | g in groups] ++ concat groups *)
+Inductive covered (mac : list N) : list N -> nat -> Prop :=
+| cov_nil : covered mac [] 0
+| cov_sec ench gs rest n :
+    length ench = 16%nat -> gs <> [] -> covered mac rest n ->
+    covered mac (ench ++ hmac256 mac ench ++ concat (map (hmac256 mac) gs) ++ concat gs ++ rest) (S n).
+
+Section Shape.
+Variable ek : list N -> list N.
+Hypothesis ek_len : forall b, length (ek b) = 16%nat.
+
+Lemma sec_export_shape mac nonce ctr s b :
+  forallb wf_cmd (s_cmds s) = true -> sec_export ek mac nonce ctr s = Ok b ->
+  exists hplain cd gs,
+    cmds_export (s_cmds s) = Ok cd /\ length hplain = 16%nat /\ gs <> [] /\
+    length gs = sec_hmac_count (s_hmac s) (length cd) /\
+    concat gs = concat (xblocks ek nonce (ctr + N.of_nat (3 + 2 * length gs)) (chunks 16 cd)) /\
+    b = xblock ek nonce ctr hplain ++ hmac256 mac (xblock ek nonce ctr hplain) ++ concat (map (hmac256 mac) gs) ++ concat gs.
+Proof.
+  intros W H. unfold sec_export in H.
+  destruct (cmds_stream _ W) as (cd & os & Hcd & Hcdm & Hcdl & Hos & Hfuel).
+  destruct (s_cmds s) as [|c0 ct] eqn:Ecs; [discriminate|]. rewrite <- Ecs in *. rewrite Hcd in H.
+  assert (Hcd16 : (16 <= length cd)%nat) by (rewrite Ecs in Hcdl; cbn [length] in Hcdl; lia).
+  rewrite (pad16z_mult cd Hcdm) in H.
+  set (hc := sec_hmac_count (s_hmac s) (length cd)) in *.
+  destruct (sec_hmac_count_bounds (s_hmac s) (length cd) Hcd16 Hcdm) as [Hhc1 Hhc2]. fold hc in Hhc1, Hhc2.
+  set (count := (length cd / 16)%nat) in *.
+  set (h := mkHdr TAG_TAG (N.lor SECT_BOOTABLE SECT_LAST_SECT) (s_uid s) (N.of_nat count) (N.of_nat hc)) in *.
+  destruct (hdr_fits h) eqn:Hf; [|discriminate]. cbn [negb] in H.
+  destruct (U32 <? ctr + N.of_nat (3 + 2 * hc + count)) eqn:Hov; [discriminate|].
+  set (body := concat (xblocks ek nonce (ctr + N.of_nat (1 + (hc + 1) * 2)) (chunks 16 cd))) in *.
+  injection H as <-.
+  exists (hdr_export h), cd, (hmac_groups hc (count / hc * 16) body).
+  split; [exact Hcd|]. split; [apply hdr_export_length|]. split.
+  { intros Hnil. apply (f_equal (@length _)) in Hnil. rewrite hmac_groups_length in Hnil. cbn in Hnil. lia. }
+  split; [apply hmac_groups_length|]. split.
+  - rewrite hmac_groups_concat by lia. rewrite hmac_groups_length. unfold body.
+    replace (1 + (hc + 1) * 2)%nat with (3 + 2 * hc)%nat by lia. reflexivity.
+  - rewrite hmac_groups_concat by lia. reflexivity.
+Qed.
+
+Lemma secs_export_covered mac nonce : forall ss ctr bs,
+  secs_wf ss -> secs_export ek mac nonce ctr ss = Ok bs -> covered mac bs (length ss).
+Proof.
+  induction ss as [|s t IH]; intros ctr bs W H.
+  - cbn in H. injection H as <-. constructor.
+  - inversion W as [|? ? Ws Wt]; subst. cbn [secs_export] in H.
+    destruct (sec_export ek mac nonce ctr s) as [b|] eqn:Eb; [|discriminate].
+    destruct (secs_export ek mac nonce (ctr + N.of_nat (length b / 16)) t) as [r|] eqn:Er; [|discriminate].
+    injection H as <-.
+    destruct (sec_export_shape mac nonce ctr s b Ws Eb) as (hp & cd & gs & _ & Lhp & Hgs & _ & _ & ->).
+    rewrite <- !app_assoc. cbn [length]. constructor.
+    + apply xblock_length; assumption.
+    + exact Hgs.
+    + eapply IH; eassumption.
+Qed.
+
+(* the n-th block of a CTR-encrypted run uses the starting counter plus n *)
+Lemma xblocks_nth nonce : forall bs c j d,
+  (j < length bs)%nat -> nth j (xblocks ek nonce c bs) d = xblock ek nonce (c + N.of_nat j) (nth j bs d).
+Proof.
+  induction bs as [|b t IH]; intros c j d Hj; [cbn in Hj; lia|].
+  destruct j as [|j].
+  - cbn [nth xblocks N.of_nat]. now rewrite N.add_0_r.
+  - cbn [nth xblocks]. rewrite IH by (cbn [length] in Hj; lia). f_equal. lia.
+Qed.
+
+End Shape.
+
+Section CipherProofs2.
+Variable E D : list N -> list N -> list N.
+Hypothesis E_len : forall k b, length (E k b) = 16%nat.
+Hypothesis DE : forall k b, length b = 16%nat -> D k (E k b) = b.
+
+(* the shape of every file the builder returns *)
+Lemma build21_inv counted x file :
+  wf_sbin x -> build21_gen E counted x = Ok file ->
+  exists hb hm kb cbb bs k,
+    let shab := if has_sha (x_flags x) then sha256 bs else [] in
+    let signed := hb ++ hm ++ kb ++ cbb ++ shab in
+    file = signed ++ x_sig x ++ bs /\
+    length hb = 96%nat /\ length hm = 32%nat /\ length kb = 80%nat /\ length cbb = cb_raw_size (x_cb x) /\
+    length signed = signed_len_of x /\
+    ((length signed + x_sigsize x) mod 16 = 0)%nat /\
+    secs_export (E (x_dek x)) (x_mac x) (x_nonce x)
+                (ctr_of_nonce (x_nonce x) + N.of_nat ((length signed + x_sigsize x) / 16)) (x_secs x) = Ok bs /\
+    kw_unwrap (D (x_kek x)) (firstn 72 kb) = Some (x_dek x ++ x_mac x) /\
+    hm = hmac256 (x_mac x) (slice bs 16 (48 + 32 * k)).
+Proof.
+  intros (Wsecs & Wdek & Wmac & Wsig & Wpv & Wcv) H. unfold build21_gen in H.
+  destruct (x_secs x) as [|s0 st] eqn:Esecs; [discriminate|]. rewrite <- Esecs in *.
+  destruct (secs_raw_size (x_secs x)) as [ssz|] eqn:Essz; [|discriminate].
+  set (cbraw := cb_raw_size (x_cb x)) in *.
+  set (sha := has_sha (x_flags x)) in *.
+  set (shasz := if sha then N.to_nat V21_SHA_256_SIZE else 0%nat) in *.
+  set (cnt := if counted then shasz else 0%nat) in *.
+  set (tagoff := (PRE_SIZE + cbraw + x_sigsize x + cnt)%nat) in *.
+  set (rawsz := (tagoff + ssz)%nat) in *.
+  set (bsoff := (PRE_SIZE + cbraw + x_sigsize x + shasz)%nat) in *.
+  destruct (aligned16 tagoff) eqn:Atag; [|discriminate].
+  destruct (aligned16 rawsz) eqn:Araw; [|discriminate].
+  destruct (Nat.eqb (length (x_nonce x)) 16) eqn:Enonce; [|discriminate].
+  destruct (aligned16 bsoff) eqn:Abs; [|discriminate]. cbn [negb] in H.
+  destruct (secs_export (E (x_dek x)) (x_mac x) (x_nonce x) (ctr_of_nonce (x_nonce x) + N.of_nat (bsoff / 16)) (x_secs x))
+    as [bs|] eqn:Ebs; [|discriminate].
+  set (hdr := mkIhdr _ _ _ _ _ _ _ _ _ _ _ _ _ _ _ _ _) in H.
+  destruct (ihdr_export hdr) as [hb|] eqn:Ehb; [|discriminate].
+  set (hc0 := match cmds_export (s_cmds s0) with Ok cd => sec_hmac_count (s_hmac s0) (length cd) | Err _ => 0%nat end) in *.
+  set (hm := hmac256 (x_mac x) (slice bs 16 (16 + hc0 * 32 + 32))) in *.
+  set (kb0 := wrap_keys E (x_kek x) (x_dek x) (x_mac x)) in *.
+  set (kb := kb0 ++ zeros (N.to_nat V21_KEY_BLOB_SIZE - length kb0)) in *.
+  destruct (cb_export (x_cb x) (x_build x) (N.of_nat (PRE_SIZE + cbraw))) as [cbb|] eqn:Ecb; [|discriminate].
+  injection H as <-.
+  destruct (ihdr_export_inv hdr hb Ehb) as (_ & _ & _ & _ & Lhb).
+  assert (Lhm : length hm = 32%nat) by apply hmac256_length.
+  assert (Hdm : (length (x_dek x ++ x_mac x) mod 8 = 0)%nat) by (rewrite app_length, Wdek, Wmac; reflexivity).
+  destruct (kw_wrap_unwrap (E (x_kek x)) (D (x_kek x)) (E_len _) (DE _) (x_dek x ++ x_mac x) Hdm) as [Lkb0 Hunwrap].
+  fold (wrap_keys E (x_kek x) (x_dek x) (x_mac x)) in Lkb0, Hunwrap. fold kb0 in Lkb0, Hunwrap.
+  rewrite app_length, Wdek, Wmac in Lkb0. change (8 + (32 + 32))%nat with 72%nat in Lkb0.
+  assert (Lkb : length kb = 80%nat) by (unfold kb; rewrite app_length, zeros_length, Lkb0; reflexivity).
+  destruct (cb_export_inv _ _ _ _ Ecb) as (Lcbb & _). fold cbraw in Lcbb.
+  assert (Lshab : length (if sha then sha256 bs else []) = shasz)
+    by (unfold shasz; destruct sha; [apply sha256_length|reflexivity]).
+  change PRE_SIZE with 208%nat in *.
+  assert (Lsigned : length (hb ++ hm ++ kb ++ cbb ++ (if sha then sha256 bs else [])) = (208 + cbraw + shasz)%nat)
+    by (rewrite !app_length, Lhb, Lhm, Lkb, Lcbb, Lshab; lia).
+  exists hb, hm, kb, cbb, bs, hc0. cbv zeta. fold sha.
+  split; [reflexivity|]. split; [exact Lhb|]. split; [exact Lhm|]. split; [exact Lkb|]. split; [exact Lcbb|].
+  split; [rewrite Lsigned; unfold signed_len_of; fold sha cbraw; reflexivity|].
+  rewrite Lsigned.
+  replace (208 + cbraw + shasz + x_sigsize x)%nat with bsoff by (unfold bsoff; lia).
+  split; [unfold aligned16 in Abs; now apply Nat.eqb_eq in Abs|]. split; [exact Ebs|]. split.
+  - unfold kb. rewrite (firstn_app_exact kb0 _ 72 Lkb0). exact Hunwrap.
+  - unfold hm. f_equal. f_equal. lia.
+Qed.
+
+End CipherProofs2.
+
+Section CipherProofs3.
+Variable E D : list N -> list N -> list N.
+Hypothesis E_len : forall k b, length (E k b) = 16%nat.
+Hypothesis DE : forall k b, length b = 16%nat -> D k (E k b) = b.
+
+Lemma counter_agreement_lemma counted x file :
+  wf_sbin x -> build21_gen E counted x = Ok file ->
+  exists pre bs, file = pre ++ bs /\ (length pre mod 16 = 0)%nat /\
+    secs_export (E (x_dek x)) (x_mac x) (x_nonce x) (ctr_of_nonce (x_nonce x) + N.of_nat (length pre / 16)) (x_secs x) = Ok bs /\
+    rom_sections (E (x_dek x)) (S (length file)) (x_mac x) (x_nonce x) file (length pre) (length file) = Some (spec_of (x_secs x)).
+Proof.
+  intros W H. destruct (build21_inv E D E_len DE counted x file W H) as (hb & hm & kb & cbb & bs & k & Hinv).
+  cbv zeta in Hinv. destruct Hinv as (Hfile & _ & _ & _ & _ & _ & Hal & Hexp & _).
+  destruct W as (Wsecs & _ & _ & Wsig & _).
+  set (signed := hb ++ hm ++ kb ++ cbb ++ (if has_sha (x_flags x) then sha256 bs else [])) in *.
+  exists (signed ++ x_sig x), bs.
+  assert (Lpre : length (signed ++ x_sig x) = (length signed + x_sigsize x)%nat) by (rewrite app_length, Wsig; reflexivity).
+  split; [rewrite Hfile, <- app_assoc; reflexivity|]. rewrite Lpre. split; [exact Hal|]. split; [exact Hexp|].
+  destruct (secs_export_rom (E (x_dek x)) (E_len _) (x_mac x) (x_nonce x) _ _ _ Wsecs Hexp) as (_ & Hl & Hrom).
+  assert (Lfile : length file = (length signed + x_sigsize x + length bs)%nat)
+    by (rewrite Hfile, !app_length, Wsig; lia).
+  rewrite Lfile.
+  replace file with ((signed ++ x_sig x) ++ bs ++ []) by (rewrite Hfile, app_nil_r, app_assoc; reflexivity).
+  apply Hrom; [exact Lpre | exact Hal | reflexivity | lia].
+Qed.
+
+Lemma coverage21_lemma counted x file :
+  wf_sbin x -> build21_gen E counted x = Ok file ->
+  exists hb hm kb cbb bs k,
+    let signed := hb ++ hm ++ kb ++ cbb ++ (if has_sha (x_flags x) then sha256 bs else []) in
+    file = signed ++ x_sig x ++ bs /\
+    length hb = 96%nat /\ length hm = 32%nat /\ length kb = 80%nat /\ length cbb = cb_raw_size (x_cb x) /\
+    length signed = signed_len_of x /\ length (x_sig x) = x_sigsize x /\
+    kw_unwrap (D (x_kek x)) (firstn 72 kb) = Some (x_dek x ++ x_mac x) /\
+    hm = hmac256 (x_mac x) (slice bs 16 (48 + 32 * k)) /\
+    covered (x_mac x) bs (length (x_secs x)).
+Proof.
+  intros W H. destruct (build21_inv E D E_len DE counted x file W H) as (hb & hm & kb & cbb & bs & k & Hinv).
+  cbv zeta in Hinv. destruct Hinv as (Hfile & L1 & L2 & L3 & L4 & L5 & _ & Hexp & Hkw & Hhm).
+  destruct W as (Wsecs & _ & _ & Wsig & _).
+  exists hb, hm, kb, cbb, bs, k. cbv zeta.
+  split; [exact Hfile|]. split; [exact L1|]. split; [exact L2|]. split; [exact L3|]. split; [exact L4|].
+  split; [exact L5|]. split; [exact Wsig|]. split; [exact Hkw|]. split; [exact Hhm|].
+  eapply secs_export_covered; [apply E_len | exact Wsecs | exact Hexp].
+Qed.
+
+End CipherProofs3.
+
+(* ------------------------------------------------------------------ concrete instances (non-vacuity, refutations) *)
+Definition demo_secs : list section :=
+  [mkSec 5 2 [CErase 0 256 0 0; CLoad 4096 0 [97; 98; 99] (zeros 13)];
+   mkSec 9 1 [CReset; CJump 32 3 (Some 48)]].
+Definition demo (flags : N) (secs : list section) : sbin :=
+  mkSbin (map N.of_nat (seq 0 32)) (repeat 160 32) (repeat 11 32) (map N.of_nat (seq 0 16)) (zeros 8)
+         633315200000000 (1, 2, 3) (4, 5, 6) 7 flags secs
+         (mkCb 0 [[48; 130; 1; 2]] (zeros 128)) 16 (repeat 170 16).
+
+Lemma demo_wf flags : wf_sbin (demo flags demo_secs).
+Proof.
+  unfold wf_sbin, demo, demo_secs, secs_wf, ver_ok. cbn [x_secs x_dek x_mac x_sig x_sigsize x_pv x_cv fst snd].
+  repeat split; try reflexivity; repeat constructor.
+Qed.
+
+(* the AES instance satisfies the conclusion of rom21_build on a two-section file without the SHA bit ... *)
+Example demo_rom_accepts :
+  exists file r, build21 (demo 8 demo_secs) = Ok file /\ rom21_aes 16 (x_kek (demo 8 demo_secs)) file = Some r /\
+                 r_secs r = spec_of demo_secs /\ r_pv r = (1, 2, 3) /\ r_cv r = (4, 5, 6) /\ r_flags r = 8.
+Proof. eexists. eexists. split; [vm_compute; reflexivity|]. split; [vm_compute; reflexivity|]. vm_compute. repeat split. Qed.
+
+(* ... and rejects the file the current builder makes for the same input with the SHA bit (C04-F2) *)
+Lemma rom21_build_sha_refuted_lemma :
+  exists x file, wf_sbin x /\ has_sha (x_flags x) = true /\ build21 x = Ok file /\
+                 rom21_aes (x_sigsize x) (x_kek x) file = None /\
+                 (exists file' r, build21_fixed x = Ok file' /\ rom21_aes (x_sigsize x) (x_kek x) file' = Some r /\
+                                  r_secs r = spec_of (x_secs x)).
+Proof.
+  exists (demo 32776 demo_secs). eexists. split; [apply demo_wf|]. split; [reflexivity|].
+  split; [vm_compute; reflexivity|]. split; [vm_compute; reflexivity|].
+  eexists. eexists. split; [vm_compute; reflexivity|]. split; [vm_compute; reflexivity|]. vm_compute. reflexivity.
+Qed.
+
+(* BootImageV21.parse: one section of two, default flags instead of the file's (C04-F1) *)
+Lemma parse21_refuted_lemma :
+  exists x file p, wf_sbin x /\ build21 x = Ok file /\ spsdk_parse21 true (x_sigsize x) (x_kek x) file = Ok p /\
+                   length (x_secs x) = 2%nat /\ length (p_secs p) = 1%nat /\ x_flags x = 8 /\ p_flags p = 32776.
+Proof.
+  exists (demo 8 demo_secs). eexists. eexists. split; [apply demo_wf|]. split; [vm_compute; reflexivity|].
+  split; [vm_compute; reflexivity|]. vm_compute. repeat split.
+Qed.
+
+(* ================================================================== statements of the property theorems (Props/C04) *)
+
+Lemma cmd_roundtrip_thm :
+  forall c, wf_cmd c = true ->
+  exists b o, cmd_export c = Ok b /\ cmd_obs c = Ok o /\ (16 <= length b)%nat /\ (length b mod 16 = 0)%nat /\
+              pcmd_size o = length b /\ forall rest, cmd_parse (b ++ rest) = Ok o.
+Proof.
+  intros c W. destruct (cmd_ok c W) as (b & o & H1 & H2 & H3 & H4 & H5 & H6). exists b, o.
+  split; [assumption|]. split; [assumption|]. split; [assumption|]. split; [assumption|]. split; [assumption|].
+  intros rest. apply H6.
+Qed.
+
+Lemma rom_cmd_decodes_thm :
+  forall c, wf_cmd c = true ->
+  exists b, cmd_export c = Ok b /\ forall rest, rom_cmd (b ++ rest) = Some (sem c, length b).
+Proof.
+  intros c W. destruct (cmd_ok c W) as (b & o & H1 & _ & _ & _ & _ & H6). exists b. split; [assumption|]. intros rest. apply H6.
+Qed.
+
+Lemma cmd_stream_roundtrip_thm :
+  forall cs, forallb wf_cmd cs = true ->
+  exists bs os, cmds_export cs = Ok bs /\ (length bs mod 16 = 0)%nat /\
+                Forall2 (fun c o => cmd_obs c = Ok o) cs os /\
+                cmds_parse (S (length bs)) bs = Ok os /\ rom_cmds (S (length bs)) bs = Some (map sem cs).
+Proof.
+  intros cs W. destruct (cmds_stream cs W) as (bs & os & H1 & H2 & H3 & H4 & H5). exists bs, os.
+  assert (F : (length cs < S (length bs))%nat) by lia.
+  destruct (H5 _ F). repeat split; assumption.
+Qed.
+
+Lemma header_roundtrip_thm :
+  forall h hb rest, ihdr_export h = Ok hb -> bcd3 (ih_pv h) = true -> bcd3 (ih_cv h) = true ->
+  length hb = 96%nat /\ ihdr_parse (hb ++ rest) = Ok h.
+Proof.
+  intros h hb rest He Hp Hc. split; [apply (ihdr_export_inv h hb He) | now apply ihdr_parse_export].
+Qed.
+
+Lemma layouts_agree_thm :
+  rom_cmdhdr_layout = cmdhdr_format /\ rom_imghdr_layout = imghdr_format /\ rom_certhdr_layout = certhdr_format.
+Proof.
+  exact layouts_agree_lemma.
+Qed.
+
+Lemma hmac_groups_cover_thm :
+  forall mac n per body, (0 < n)%nat ->
+  concat (hmac_groups n per body) = body /\ length (hmac_groups n per body) = n /\
+  rom_groups_ok mac n per body (concat (map (hmac256 mac) (hmac_groups n per body))) = true.
+Proof.
+  intros mac n per body Hn. split; [now apply hmac_groups_concat|]. split; [apply hmac_groups_length| now apply rom_groups_ok_built].
+Qed.
+
+Lemma keyblob_unwraps_thm :
+  forall (E D : list N -> list N),
+  (forall b, length (E b) = 16%nat) -> (forall b, length b = 16%nat -> D (E b) = b) ->
+  forall data, (length data mod 8 = 0)%nat ->
+  length (kw_wrap E data) = (8 + length data)%nat /\ kw_unwrap D (kw_wrap E data) = Some data.
+Proof.
+  exact kw_wrap_unwrap.
+Qed.
+
+Lemma rom_section_decodes_thm :
+  forall (ek : list N -> list N), (forall b, length (ek b) = 16%nat) ->
+  forall mac nonce ctr s b,
+  forallb wf_cmd (s_cmds s) = true -> sec_export ek mac nonce ctr s = Ok b ->
+  (48 <= length b)%nat /\ (length b mod 16 = 0)%nat /\
+  forall pre post off,
+    length pre = off -> (off mod 16 = 0)%nat -> ctr = ctr_of_nonce nonce + N.of_nat (off / 16) ->
+    rom_section ek mac nonce (pre ++ b ++ post) off = Some (s_uid s, map sem (s_cmds s), length b).
+Proof.
+  intros ek Hek mac nonce ctr s b W H. destruct (sec_export_rom ek Hek mac nonce ctr s b W H) as (H1 & H2 & _ & _ & H5). auto.
+Qed.
+
+Lemma rom21_build_except_known_thm :
+  forall (E D : list N -> list N -> list N),
+  (forall k b, length (E k b) = 16%nat) -> (forall k b, length b = 16%nat -> D k (E k b) = b) ->
+  forall x file, wf_sbin x -> has_sha (x_flags x) = false -> build21_gen E false x = Ok file ->
+  exists r, rom21 E D (x_sigsize x) (x_kek x) file = Some r /\
+     r_secs r = spec_of (x_secs x) /\ r_flags r = x_flags x /\ r_pv r = x_pv x /\ r_cv r = x_cv x /\
+     r_build r = x_build x /\ r_ts r = x_ts x /\ r_major r = 2 /\ r_minor r = 1 /\
+     r_sig r = x_sig x /\ r_signed_len r = signed_len_of x.
+Proof.
+  intros E D HE HD x file W Hs H. apply (rom21_build_lemma E D HE HD false x file W (or_intror Hs) H).
+Qed.
+
+Lemma rom21_build_fixed_thm :
+  forall (E D : list N -> list N -> list N),
+  (forall k b, length (E k b) = 16%nat) -> (forall k b, length b = 16%nat -> D k (E k b) = b) ->
+  forall x file, wf_sbin x -> build21_gen E true x = Ok file ->
+  exists r, rom21 E D (x_sigsize x) (x_kek x) file = Some r /\
+     r_secs r = spec_of (x_secs x) /\ r_flags r = x_flags x /\ r_pv r = x_pv x /\ r_cv r = x_cv x /\
+     r_build r = x_build x /\ r_ts r = x_ts x /\ r_major r = 2 /\ r_minor r = 1 /\
+     r_sig r = x_sig x /\ r_signed_len r = signed_len_of x.
+Proof.
+  intros E D HE HD x file W H. apply (rom21_build_lemma E D HE HD true x file W (or_introl eq_refl) H).
+Qed.
+
+Lemma sections_all_thm :
+  forall (E D : list N -> list N -> list N),
+  (forall k b, length (E k b) = 16%nat) -> (forall k b, length b = 16%nat -> D k (E k b) = b) ->
+  forall counted x file, wf_sbin x -> (counted = true \/ has_sha (x_flags x) = false) -> build21_gen E counted x = Ok file ->
+  exists r, rom21 E D (x_sigsize x) (x_kek x) file = Some r /\
+            length (r_secs r) = length (x_secs x) /\ map fst (r_secs r) = map s_uid (x_secs x).
+Proof.
+  intros E D HE HD counted x file W Hc H.
+  destruct (rom21_build_lemma E D HE HD counted x file W Hc H) as (r & Hr & Hs & _). exists r. split; [exact Hr|].
+  rewrite Hs. unfold spec_of. rewrite map_length, map_map. split; reflexivity.
+Qed.
+
+Lemma counter_agreement_thm :
+  forall (E D : list N -> list N -> list N),
+  (forall k b, length (E k b) = 16%nat) -> (forall k b, length b = 16%nat -> D k (E k b) = b) ->
+  forall counted x file, wf_sbin x -> build21_gen E counted x = Ok file ->
+  exists pre bs, file = pre ++ bs /\ (length pre mod 16 = 0)%nat /\
+    secs_export (E (x_dek x)) (x_mac x) (x_nonce x) (ctr_of_nonce (x_nonce x) + N.of_nat (length pre / 16)) (x_secs x) = Ok bs /\
+    rom_sections (E (x_dek x)) (S (length file)) (x_mac x) (x_nonce x) file (length pre) (length file) = Some (spec_of (x_secs x)).
+Proof.
+  exact counter_agreement_lemma.
+Qed.
+
+Lemma coverage21_thm :
+  forall (E D : list N -> list N -> list N),
+  (forall k b, length (E k b) = 16%nat) -> (forall k b, length b = 16%nat -> D k (E k b) = b) ->
+  forall counted x file, wf_sbin x -> build21_gen E counted x = Ok file ->
+  exists hb hm kb cbb bs k,
+    let signed := hb ++ hm ++ kb ++ cbb ++ (if has_sha (x_flags x) then sha256 bs else []) in
+    file = signed ++ x_sig x ++ bs /\
+    length hb = 96%nat /\ length hm = 32%nat /\ length kb = 80%nat /\ length cbb = cb_raw_size (x_cb x) /\
+    length signed = signed_len_of x /\ length (x_sig x) = x_sigsize x /\
+    kw_unwrap (D (x_kek x)) (firstn 72 kb) = Some (x_dek x ++ x_mac x) /\
+    hm = hmac256 (x_mac x) (slice bs 16 (48 + 32 * k)) /\
+    covered (x_mac x) bs (length (x_secs x)).
+Proof.
+  exact coverage21_lemma.
+Qed.
+
+Lemma rom21_build_sha_refuted_thm :
+  exists x file, wf_sbin x /\ has_sha (x_flags x) = true /\ build21 x = Ok file /\
+                 rom21_aes (x_sigsize x) (x_kek x) file = None /\
+                 (exists file' r, build21_fixed x = Ok file' /\ rom21_aes (x_sigsize x) (x_kek x) file' = Some r /\
+                                  r_secs r = spec_of (x_secs x)).
+Proof.
+  exact rom21_build_sha_refuted_lemma.
+Qed.
+
+Lemma parse21_refuted_thm :
+  exists x file p, wf_sbin x /\ build21 x = Ok file /\ spsdk_parse21 true (x_sigsize x) (x_kek x) file = Ok p /\
+                   length (x_secs x) = 2%nat /\ length (p_secs p) = 1%nat /\ x_flags x = 8 /\ p_flags p = 32776.
+Proof.
+  exact parse21_refuted_lemma.
 Qed.
